@@ -27,6 +27,33 @@ Subset
               (`PyU.whileFuel`)
 Evaluation order is left to right; every name of the source that is not a local variable must resolve (in the function's
 globals, at translation time) to the very object the plug-in registered, or to an unshadowed builtin.
+
+Objects (c2profile.py's `StringIterator`; run-time: lean/CsVerif/Model/PyU_T12.lean; see `_Fn.analyse_objects`)
+  classes     a plain class registered with kind `obj`: `__init__` translated with `init_of=` (the constructor call, the instance
+              is `V.inst cls [attributes]`), every other method with `method_of=`: `self.a` reads, `self.a = e` / `self.a += e`
+              rebind `self` to the changed instance, a method that assigns an attribute answers `(result, self afterwards)`
+  object variables   `v = Cls(args)`; `v.m(args)`, `next(v)`, `for x in v:` (= `v.__iter__()`, then `v.__next__()` before every run of
+              the body until StopIteration; needs `__iter__` to return `self`; run by `PyU.whileFuelS`); no other use of `v`, so no
+              second reference to the object can exist
+  StopIteration   `raise StopIteration`; a function that can raise it lives in the monad `PyU.PyS` (`PyExc` + StopIteration)
+  more        list comprehensions `[e for x in it if c]`, `repr(x)`, `ord(x)`, `chr(x)`, `bytes(x)`, `int(x, base)`, `x.replace(a, b)`,
+              `sep.join(xs)`
+
+File objects, generators, file-owning instances (utils.iter_find_needle, artifact.iter_artifactkit_payloads, xordecode.py;
+run-time: lean/CsVerif/Model/PyU_T15.lean; plug-ins gen/py_scan.py, gen/py_xor.py)
+  file parameters   `Unit.translate(fn, files=[…])`: a parameter that is a binary file object of the caller occurs only as the receiver
+              of `.read(n)` / `.seek(off[, whence])` / `.tell()`; it is threaded as a value and returned: the definition answers the
+              tuple `(result, file, …)`
+  generators  a function with `yield e` statements answers the LIST of the yielded values (what `list(f(…))` returns)
+  registry    kind `gparam` (a module attribute read at call time, e.g. `io.DEFAULT_BUFFER_SIZE`: a value parameter of the
+              definitions), kind `const` (a module attribute with a fixed literal value, e.g. `io.SEEK_END`; also as a parameter default)
+  expressions conditional expressions WITH raising branches (only the chosen branch is evaluated), `x.find(sub[, start])`,
+              negative int literals as parameter defaults; with `unit.t15_builtins`: `range(n)` as the iterable of a `for`, `max(a, b)`
+  file-owning instance   `unit.t15_fobj = (self, [file attributes], {method: key})`: `self.fh.read/seek/tell(…)` act on the file held
+              by the instance, `self.m(…)` calls a method translated the same way, every method answers `(result, self afterwards)`;
+              `unit.t15_init_files = {attr: parameter}`: `__init__` moves the file parameter into the new instance (`_Fn.t15_analyse`)
+  try         `try: … except OSError: …` with a handler that goes on (`_Fn.t15_try`); a variable that every continuing path of an
+              `if` / `try` assigns and a later statement reads is declared before the statement (`_Fn.t15_stmt`)
 """
 from __future__ import annotations
 
@@ -72,6 +99,33 @@ CODECS = {"utf-8": "utf-8", "utf8": "utf-8", "latin-1": "latin-1", "latin1": "la
 ISINSTANCE = {"int": "PyU.Ty.int", "bool": "PyU.Ty.bool", "bytes": "PyU.Ty.bytes", "str": "PyU.Ty.str", "list": "PyU.Ty.list",
               "tuple": "PyU.Ty.tuple", "dict": "PyU.Ty.dict"}
 CALLS = "%calls"     # the hidden variable that counts the calls of a registered `stream` function (Lean name `t0`)
+# -- file parameters and generators (run-time: lean/CsVerif/Model/PyU_T15.lean) --
+# methods of a FILE PARAMETER (`Unit.translate(fn, files=[...])`): name -> (runtime function, min / max number of arguments,
+# defaults of the missing ones, the call answers (result, file afterwards))
+FILE_METHODS = {"read": ("PyU.fileRead", 0, 1, ["V.none"], True), "seek": ("PyU.fileSeek", 1, 2, [None, "(V.int 0)"], True),
+                "tell": ("PyU.fileTell", 0, 0, [], False)}
+YIELDS = "%yields"   # the hidden variable of a generator function: the list of the values yielded so far (Lean name `ys0`)
+METHODS["find"] = ("PyU.find", 1, 2, [None, "V.none"])
+# -- T02 (run-time: lean/CsVerif/Model/PyU_T02.lean): `p.seek(off[, whence])` on a BytesIO variable, cstruct structures read from a
+# BytesIO variable (registry kind `struct`), attribute assignment on a fresh instance, `try … except <Builtin>: <terminating handler>`,
+# registered constants (kind `const`), `str(x)` / `tuple(x)` / `max(x)`, `s.replace(a, b)`, calls of a local variable (extern `%callvalue`)
+MUTATORS["seek"] = (1, 2)
+METHODS["replace"] = ("PyU.strReplace", 2, 2, [])
+# -- objects with translated methods, the iterator protocol, more builtins (run-time: lean/CsVerif/Model/PyU_T12.lean) --
+METHODS["replace"] = ("PyU.strReplace", 2, 2, [])
+METHODS["join"] = ("PyU.join", 1, 1, [])
+BUILTIN1 = {"repr": "PyU.reprV", "ord": "PyU.ord", "chr": "PyU.chr", "bytes": "PyU.bytesOf"}     # builtins called with one argument
+# -- T17 (guardrails.py; run-time: lean/CsVerif/Model/PyU_T17.lean; all of it is active only for a unit with `t17 = True`): `for … else`,
+# `range(a, b)`, `bytes(x)`, external GENERATOR functions that are handed a file parameter (`unit.t17_filegens`), dataclass constructors
+# (registry kind `dcls`), `collections.Counter()` (kind `counterctor`: `.update(<generator expression>)`, `.most_common(n)`),
+# `io.BufferedReader(io.BytesIO(x))` (kind `bufreader`: `.peek(n)`), functions called with keyword arguments (kind `kwfunc`), and
+# `for x in iter(functools.partial(f.read, n), <literal>)` (rewritten into `while True:` before the analysis, see `_t17_desugar_iter`)
+T17_FRESH_KINDS = ("counterctor", "bufreader")
+# -- T19 (client.py; run-time: lean/CsVerif/Model/PyU_T19.lean): `b.decode(errors="ignore")` (UTF-8), `n.to_bytes(length, byteorder)`,
+# `s.replace(a, b)`, Python IntEnum classes (registry kind `intenum`), and — for units with `unit.t19 = True` — `try … except <Builtin>`
+# with a handler that goes on, and the statements `self.a[k] = e` / `self.a[k].append(e)` on the first parameter (see `_Fn.t19_stmt`)
+DECODE[("utf-8", "ignore")] = "PyU.decodeUtf8Ignore"
+METHODS["to_bytes"] = ("PyU.toBytes", 2, 2, [])
 
 
 def lname(n: str) -> str:
@@ -79,6 +133,8 @@ def lname(n: str) -> str:
         return "u_"
     if n == CALLS:
         return "t0"
+    if n == YIELDS:
+        return "ys0"
     if re.fullmatch(r"t\d+", n) or n.endswith("_") and n[:-1] in LEAN_RESERVED:
         raise Unsupported(f"variable name {n} clashes with the translator's own names")
     return n + "_" if n in LEAN_RESERVED else n
@@ -192,23 +248,37 @@ class Unit:
 
     def extern_type(self, name: str) -> str:
         for _, kind, term in self.registry.values():
+            if kind == "gparam" and term == name:     # a module attribute read at call time, e.g. `io.DEFAULT_BUFFER_SIZE`: a value parameter
+                return "V"
+        for _, kind, term in self.registry.values():
             if kind in ("extern", "stream") and term[0] == name:
                 n = term[1] + len(term[2]) if kind == "extern" else term[1] + 1
                 return " → ".join(["V"] * n + ["Py V"])
         raise Unsupported(f"unknown extern {name}")
 
-    def translate(self, fn, lean_name=None, init_of=None):
+    def translate(self, fn, lean_name=None, init_of=None, files=(), method_of=None):
         """`fn`: a module-level function, or a method taken from the `__dict__` of its class (then `self` is an ordinary
         parameter).  `init_of=(cls, lean term of its PyU.Cls descriptor)`: `fn` is `cls.__init__`; the translated definition is
         the constructor call `cls(args)`: every `self.a` is a variable, the result is the instance with the attributes in the
-        order of their first assignment (`self` itself must not be used in any other way)."""
+        order of their first assignment (`self` itself must not be used in any other way).
+        `files`: names of the parameters that are binary file objects owned by the caller (run-time: Model/PyU_T15.lean); they may
+        only occur as the receiver of `.read(n)` / `.seek(off[, whence])` / `.tell()`; the translated definition returns the tuple
+        `(result, file1, …)` — the files as they are afterwards.  (Assumed, not checked: different file parameters are different
+        objects.)  A function that contains `yield e` statements is a GENERATOR: its result is the list of the yielded values, i.e.
+        what `list(f(…))` returns (the caller is assumed to consume the generator completely; an exception discards the list).
+        `method_of=<registry key of a class of kind obj>`: `fn` is a method of that class (see `_Fn.analyse_objects`); it is
+        recorded as `unit.sigs["<key>.<method name>"]` (pass the Lean name of the definition as `lean_name`)."""
         src = textwrap.dedent(inspect.getsource(fn))
         mod = ast.parse(src)
         if len(mod.body) != 1 or not isinstance(mod.body[0], ast.FunctionDef):
             raise Unsupported(f"cannot isolate the definition of {fn!r}")
         fd = mod.body[0]
-        if fd.decorator_list:
+        if fd.decorator_list and not (getattr(self, "t02_property_getters", False) and [ast.unparse(d) for d in fd.decorator_list] == ["property"]
+                                      and fn.__globals__.get("property", builtins.property) is builtins.property):
+            # T02: the plug-in passes the `fget` of a read-only `property` object; the translation is the getter as a function of `self`
             raise Unsupported(f"{fd.name}: decorators")
+        if getattr(self, "t17", False):
+            fd = _t17_desugar_iter(fd, fn.__globals__, list(files))     # T17: `for x in iter(functools.partial(f.read, n), <literal>)`
         a = fd.args
         if a.vararg or a.kwarg or a.posonlyargs or a.kwonlyargs:
             raise Unsupported(f"{fd.name}: *args / **kwargs / positional-only / keyword-only parameters")
@@ -216,7 +286,11 @@ class Unit:
         params = []
         for p, d in zip(a.args, defaults):
             if d is not None and not isinstance(d, ast.Constant):
-                raise Unsupported(f"{fd.name}: non-literal default of {p.arg}")
+                dt = self.t15_default(d, fn.__globals__)      # T15: a negative int literal / a registered constant (`io.SEEK_SET`)
+                if dt is None:
+                    raise Unsupported(f"{fd.name}: non-literal default of {p.arg}")
+                params.append((p.arg, dt))
+                continue
             params.append((p.arg, None if d is None else const_term(d.value)))
         init_attrs = None
         if init_of is not None:
@@ -230,19 +304,38 @@ class Unit:
                 raise Unsupported(f"{fd.name}: `return` in `__init__`")
             params = params[1:]
             init_attrs = rw.attrs
+            for attr, par in (getattr(self, "t15_init_files", None) or {}).items():
+                fd = _t15_move_file_attr(fd, attr, par)       # T15: `self.<attr> = <file parameter>` is a move
         key = lean_name or fd.name
         tr = _Fn(self, fd, fn.__globals__, [p for p, _ in params], init=(init_of[1], init_attrs) if init_of else None)
+        tr.files = [f for f in files]
+        tr.method_of = method_of
+        if init_of is not None and getattr(self, "t15_init_files", None):
+            tr.files = list(self.t15_init_files.values())     # T15: the file parameters that `__init__` moves into the instance
+            tr.t15_init_files = dict(self.t15_init_files)
+            if any(f not in tr.params for f in tr.files):
+                raise Unsupported(f"{fd.name}: {tr.files} are not parameters")
+        elif getattr(self, "t15_fobj", None) is not None:
+            tr.fobj = self.t15_fobj                           # T15: `self` owns file objects (see `_Fn.t15_analyse`)
+            if init_of is not None or method_of is not None or not tr.params or tr.params[0] != tr.fobj[0]:
+                raise Unsupported(f"{fd.name}: the first parameter is not {tr.fobj[0]} / `__init__` / a T02 method")
+        if any(f not in tr.params for f in tr.files) or (tr.files and init_of is not None and not tr.t15_init_files):
+            raise Unsupported(f"{fd.name}: file parameters {list(files)} (not parameters, or in `__init__`)")
         body = tr.run()
         sig = Sig(lname(key), params, tr.needs_fuel, tr.used_externs, tr.asserts)
-        self.sigs[key] = sig
+        sig.files, sig.is_gen = list(tr.files), tr.is_gen
+        sig.fobj = tr.fobj[0] if tr.fobj is not None else None
+        sig.stops, sig.mutates, sig.returns_self = tr.stops, tr.mutates, tr.returns_self
+        self.sigs[f"{method_of}.{fd.name}" if method_of else key] = sig
         self.init_fields = init_attrs
-        monad = "PyU.PyA" if sig.asserts else "Py"
+        monad = "PyU.PyA" if sig.asserts else ("PyU.PyS" if sig.stops else "Py")
+        exc_wrap = "PyU.ExcA.py" if sig.asserts else ("PyU.ExcS.py" if sig.stops else None)
         xb = "".join(f" ({e} : {self.extern_type(e)})" for e in sig.externs)
         xa = "".join(f" {e}" for e in sig.externs)
 
         def fill(text):
             text = text.replace("«XB»", xb).replace("«XA»", xa).replace("«M»", monad)
-            return re.sub(r"«T(.*?)»", (lambda m: f"(PyU.ExcA.py {m.group(1)})") if sig.asserts else (lambda m: m.group(1)), text)
+            return re.sub(r"«T(.*?)»", (lambda m: f"({exc_wrap} {m.group(1)})") if exc_wrap else (lambda m: m.group(1)), text)
 
         binders = xb + (" (fuel : Nat)" if sig.fuel else "") + "".join(f" ({lname(p)} : V)" for p, _ in params)
         doc = f"/-- translated from `{fn.__module__}.{fn.__qualname__}`"
@@ -269,6 +362,19 @@ class Unit:
             self.names.append(f"{sig.name}_default{k}")
         return sig
 
+    def t15_default(self, d, globs):
+        """a parameter default that is a negative int literal, or a registered constant (registry kind `const`)"""
+        if isinstance(d, ast.UnaryOp) and isinstance(d.op, ast.USub) and isinstance(d.operand, ast.Constant) and type(d.operand.value) is int:
+            return const_term(-d.operand.value)
+        if isinstance(d, (ast.Attribute, ast.Name)):
+            key = ast.unparse(d)
+            ent = self.registry.get(key)
+            if ent is not None and ent[1] == "const":
+                got = _resolve(globs, key)
+                if type(got) is type(ent[0]) and got == ent[0]:
+                    return ent[2]
+        return None
+
     def render(self, header: str) -> str:
         imps = "".join(f"import {m}\n" for m in ["CsVerif.Model.PyU"] + self.imports)
         out = [f"{imps}/-! {header}\nGENERATED by tools/py2leanu.py from the working tree of /repo — do not edit. -/",
@@ -276,6 +382,74 @@ class Unit:
         out += self.prelude + self.defs
         out.append(f"end {self.namespace}")
         return "\n".join(out) + "\n"
+
+
+def _t15_move_file_attr(fd, attr, par):
+    """`__init__` after `_SelfAttrs`: the top-level statement `self__<attr> = <par>` for a file parameter `par` MOVES the file into
+    the instance — required: it is the only assignment of `self__<attr>`, `self__<attr>` does not occur before it and `par` occurs
+    nowhere else.  The statement is removed and `self__<attr>` renamed to `par`: the attribute IS the file parameter."""
+    var = f"self__{attr}"
+    idx = [i for i, st in enumerate(fd.body) if isinstance(st, ast.Assign) and len(st.targets) == 1 and isinstance(st.targets[0], ast.Name)
+           and st.targets[0].id == var and isinstance(st.value, ast.Name) and st.value.id == par]
+    stores = [n for n in ast.walk(fd) if isinstance(n, ast.Name) and n.id == var and not isinstance(n.ctx, ast.Load)]
+    uses_par = [n for n in ast.walk(fd) if isinstance(n, ast.Name) and n.id == par]
+    if len(idx) != 1 or len(stores) != 1 or len(uses_par) != 1:
+        raise Unsupported(f"{fd.name}: `self.{attr} = {par}` is not the one place where the file parameter is stored")
+    if any(isinstance(n, ast.Name) and n.id == var for st in fd.body[:idx[0]] for n in ast.walk(st)):
+        raise Unsupported(f"{fd.name}: self.{attr} is used before it is assigned")
+    del fd.body[idx[0]]
+    for n in ast.walk(fd):
+        if isinstance(n, ast.Name) and n.id == var:
+            n.id = par
+    return fd
+
+
+def _t17_desugar_iter(fd, globs, files):
+    """T17: `for x in iter(functools.partial(f.read, n), s): body` for a file parameter `f`, a size `n` that is an int literal or a
+    dotted global name (e.g. `io.DEFAULT_BUFFER_SIZE`, read once per call in the translation), a literal sentinel `s` and a plain
+    variable `x` becomes
+        while True:
+            x = f.read(n)
+            if x == s: break
+            body
+    (`iter(callable, sentinel)` calls `callable()` before every run of the body and stops when the result `== sentinel`; `continue`
+    goes on with the next call in both forms).  `iter` and `functools.partial` must be the builtin / the standard function."""
+    import functools as _functools
+    stored = {n.id for n in ast.walk(fd) if isinstance(n, ast.Name) and not isinstance(n.ctx, ast.Load)} | {a.arg for a in fd.args.args}
+
+    def dotted_global(e):
+        while isinstance(e, ast.Attribute):
+            e = e.value
+        return isinstance(e, ast.Name) and e.id not in stored
+
+    class R(ast.NodeTransformer):
+        def visit_For(self, st):
+            self.generic_visit(st)
+            it = st.iter
+            if not (isinstance(it, ast.Call) and isinstance(it.func, ast.Name) and it.func.id == "iter" and len(it.args) == 2):
+                return st
+            part, sent = it.args
+            ok = (not it.keywords and not st.orelse and isinstance(st.target, ast.Name) and "iter" not in stored
+                  and globs.get("iter", builtins.iter) is builtins.iter
+                  and isinstance(part, ast.Call) and not part.keywords and len(part.args) == 2
+                  and isinstance(part.func, (ast.Name, ast.Attribute)) and dotted_global(part.func)
+                  and _resolve(globs, ast.unparse(part.func)) is _functools.partial
+                  and isinstance(part.args[0], ast.Attribute) and part.args[0].attr == "read" and isinstance(part.args[0].value, ast.Name)
+                  and part.args[0].value.id in files
+                  and (isinstance(part.args[1], ast.Constant) and type(part.args[1].value) is int
+                       or isinstance(part.args[1], (ast.Name, ast.Attribute)) and dotted_global(part.args[1]))
+                  and isinstance(sent, ast.Constant) and isinstance(sent.value, (bytes, type(None))))
+            if not ok:
+                raise Unsupported(f"{fd.name}: `iter(…, …)` other than iter(functools.partial(<file parameter>.read, <size>), <literal>)")
+            x = st.target.id
+            read = ast.Assign(targets=[ast.Name(id=x, ctx=ast.Store())],
+                              value=ast.Call(func=ast.Attribute(value=ast.Name(id=part.args[0].value.id, ctx=ast.Load()), attr="read", ctx=ast.Load()),
+                                             args=[part.args[1]], keywords=[]))
+            stop = ast.If(test=ast.Compare(left=ast.Name(id=x, ctx=ast.Load()), ops=[ast.Eq()], comparators=[sent]), body=[ast.Break()], orelse=[])
+            new = ast.While(test=ast.Constant(value=True), body=[read, stop] + st.body, orelse=[])
+            return ast.copy_location(new, st)
+
+    return ast.fix_missing_locations(R().visit(fd))
 
 
 class _Fn:
@@ -296,6 +470,14 @@ class _Fn:
         self.loops = 0
         self.in_loop: list | None = None             # names of the state tuple of the innermost enclosing loop
         self.needs_fuel = False
+        self.files: list[str] = []                   # parameters that are file objects of the caller (set by `Unit.translate`)
+        self.is_gen = False                          # the function contains `yield` statements
+        self.fobj = None                             # T15: (name of the first parameter, its file attributes, {method: key in unit.sigs})
+        self.t15_init_files: dict = {}               # T15: `__init__`: attribute -> the file parameter moved into it
+        self.t15_follow: dict = {}                   # T15: id(statement) -> the statements after it in its block
+        self.method_of = None                        # registry key of the class (kind `obj`) this function is a method of
+        self.objvars: dict = {}                      # local variable -> registry key of the class (kind `obj`) of the object it holds
+        self.stops = self.mutates = self.returns_self = False     # see `analyse_objects`
 
     def bad(self, msg):
         return Unsupported(f"{self.fd.name}: {msg}")
@@ -308,12 +490,16 @@ class _Fn:
     def analyse(self):
         fd = self.fd
         for n in ast.walk(fd):
-            if n is not fd and isinstance(n, (ast.FunctionDef, ast.AsyncFunctionDef, ast.Lambda, ast.ClassDef, ast.ListComp, ast.SetComp,
-                                              ast.GeneratorExp, ast.Global, ast.Nonlocal, ast.NamedExpr, ast.Yield,
-                                              ast.YieldFrom, ast.Await, ast.Try, ast.With, ast.Delete, ast.Starred)):
+            if n is not fd and isinstance(n, (ast.FunctionDef, ast.AsyncFunctionDef, ast.Lambda, ast.ClassDef, ast.SetComp,
+                                              ast.GeneratorExp, ast.Global, ast.Nonlocal, ast.NamedExpr,
+                                              ast.YieldFrom, ast.Await, ast.With, ast.Delete, ast.Starred)):
+                if isinstance(n, ast.GeneratorExp) and self.t17_genexp_ok(n):
+                    continue       # T17: the argument of the statement `<counter>.update(<generator expression>)`
                 raise self.bad(f"construct {type(n).__name__}")
+        self.analyse_files_and_yields()
         self.local = set()
         self.assigned = {v for v in self.stores_in([fd]) if v != CALLS}
+        self.assigned.discard(YIELDS)
         self.local = self.assigned | set(self.params) | comp_targets(fd)
         self.asserts = any(isinstance(n, ast.Assert) for n in ast.walk(fd))
         self.uses_calls = any(isinstance(n, ast.Call) and self.global_kind(n.func) == "stream" for n in ast.walk(fd))
@@ -328,10 +514,21 @@ class _Fn:
                 recv, what = n.func.value, f"`.{n.func.attr}`"
             elif isinstance(n, ast.Subscript) and isinstance(n.ctx, ast.Store):
                 recv, what = n.value, "item assignment"
+            if recv is not None and isinstance(recv, ast.Name) and recv.id in self.files:
+                recv = None        # a method of a file parameter (checked by `analyse_files_and_yields`)
+            if recv is not None and self.fobj is not None and isinstance(n, ast.Call) and self.t15_fobj_call(n) is not None:
+                recv = None        # T15: `self.fh.read(…)` / a translated method of the file-owning `self` (checked by `t15_analyse`)
+            if recv is not None and isinstance(recv, ast.Name) and recv.id in self.t02_owned() and recv.id in self.assigned:
+                self.mutable.add(recv.id)
+                recv = None        # T02: a parameter the plug-in declared as holding an object of the caller (`Unit.owned_params`)
+            if recv is not None and self.t19_item_store(n) is not None:
+                recv = None        # T19: `self.a[k] = e` / `self.a[k].append(e)` on the first parameter (checked by `t19_analyse`)
             if recv is not None:
                 if not isinstance(recv, ast.Name) or recv.id not in self.assigned or recv.id in self.params:
                     raise self.bad(f"{what} on something that is not a local variable bound to a fresh object")
                 self.mutable.add(recv.id)
+        self.mutable |= self.t02_mutables()
+        self.mutable |= self.t17_mutables()
         allowed = set()
         self.borrows = {}      # mutable variable -> (owner variable, attribute, the assignment statement)
         for n in ast.walk(fd):
@@ -357,9 +554,211 @@ class _Fn:
                         else:
                             raise self.bad(f"mutable variable {t.id} is bound to something that is not a fresh object")
         allowed |= self.check_borrows()
+        allowed |= self.t02_allowed()
+        allowed |= self.t12_allowed()
+        allowed |= self.t17_allowed()
+        allowed |= self.t19_allowed()
         for n in ast.walk(fd):
             if isinstance(n, ast.Name) and n.id in self.mutable and id(n) not in allowed:
                 raise self.bad(f"mutable variable {n.id} is used where a second reference to the object could be created")
+        self.analyse_objects()
+        self.t19_analyse()
+
+    def analyse_files_and_yields(self):
+        """`yield` only as the statement `yield e` (then the function is a generator: no `return e`, no `assert`, not `__init__`);
+        a file parameter only as the receiver of `.read` / `.seek` / `.tell` (never assigned, never passed on, never stored)"""
+        fd = self.fd
+        stmt_yields = {id(st.value) for st in ast.walk(fd) if isinstance(st, ast.Expr) and isinstance(st.value, ast.Yield)
+                       and st.value.value is not None}
+        for n in ast.walk(fd):
+            if isinstance(n, ast.Yield) and id(n) not in stmt_yields:
+                raise self.bad("construct Yield (other than the statement `yield e`)")
+        self.is_gen = bool(stmt_yields)
+        self.t15_analyse()
+        if self.is_gen:
+            if self.init is not None or any(isinstance(n, ast.Assert) for n in ast.walk(fd)):
+                raise self.bad("`yield` in `__init__` / together with `assert`")
+            if any(isinstance(n, ast.Return) and n.value is not None for n in ast.walk(fd)):
+                raise self.bad("`return e` in a generator")
+            if any(isinstance(n, ast.Name) and n.id == "ys0" for n in ast.walk(fd)):
+                raise self.bad("variable name ys0 clashes with the translator's own names")
+        receivers = set()
+        for n in ast.walk(fd):
+            if (isinstance(n, ast.Call) and isinstance(n.func, ast.Attribute) and isinstance(n.func.value, ast.Name)
+                    and n.func.value.id in self.files and n.func.attr in FILE_METHODS and not n.keywords):
+                receivers.add(id(n.func.value))
+        receivers |= self.t17_file_uses()
+        for n in ast.walk(fd):
+            if isinstance(n, ast.Name) and n.id in self.files and (id(n) not in receivers or not isinstance(n.ctx, ast.Load)):
+                raise self.bad(f"file parameter {n.id} is used other than as the receiver of .read(n) / .seek(off[, whence]) / .tell()")
+
+    # -- objects with translated methods (registry kind `obj`: term = Lean term of the class descriptor `PyU.Cls`; the plug-in
+    #    translates `__init__` with `init_of=` under the class's own name and every method with `method_of=<registry key>`) --
+    def is_stop_raise(self, st) -> bool:
+        """`raise StopIteration` / `raise StopIteration()`"""
+        if not isinstance(st, ast.Raise) or st.cause is not None or st.exc is None:
+            return False
+        e = st.exc.func if isinstance(st.exc, ast.Call) and not st.exc.args and not st.exc.keywords else st.exc
+        return self.is_builtin(e, "StopIteration")
+
+    def obj_sig(self, var, meth):
+        sg = self.u.sigs.get(f"{self.objvars[var]}.{meth}")
+        if sg is None:
+            raise self.bad(f"{self.objvars[var]} has no translated method {meth}")
+        return sg
+
+    def analyse_objects(self):
+        """An OBJECT VARIABLE is a local variable (not a parameter) every assignment of which is `v = Cls(args)` for a class of kind
+        `obj`; the instance is a value (`V.inst`) threaded through the calls of its methods.  That is exact because no second
+        reference to the object can exist: the constructor call is the whole right-hand side of the assignment, and the variable
+        occurs only as the receiver of a call of a translated method `v.m(args)`, as `next(v)`, or as the iterable of `for x in v:`.
+        In a METHOD (`method_of`), `self` occurs only as `self.a` (read, or the target of `=` / `+=` …) or as `return self`; a method
+        that assigns an attribute MUTATES: its translation returns the tuple `(result, self afterwards)`.  A function STOPS when it
+        can raise StopIteration (`raise StopIteration`, `next(v)`, a `for` over an object variable, a call of a function that
+        stops): its monad is `PyU.PyS`.  In a method that raises StopIteration no path may assign an attribute before the raise
+        (the `for` statement that catches the exception goes on with the object as it was before the call)."""
+        fd = self.fd
+        parents = {id(c): n for n in ast.walk(fd) for c in ast.iter_child_nodes(n)}
+
+        def is_ctor(v):
+            return isinstance(v, ast.Call) and self.global_kind(v.func) == "obj"
+
+        for n in ast.walk(fd):
+            if is_ctor(n):
+                par = parents.get(id(n))
+                tg = (par.targets if isinstance(par, ast.Assign) else [par.target]) if isinstance(par, (ast.Assign, ast.AnnAssign)) and par.value is n else []
+                if len(tg) != 1 or not isinstance(tg[0], ast.Name) or tg[0].id in self.params:
+                    raise self.bad(f"{ast.unparse(n)[:40]}: an object must be bound to a local variable by `v = Cls(…)`")
+                key = self.dotted(n.func)
+                if self.objvars.setdefault(tg[0].id, key) != key or key not in self.u.sigs:
+                    raise self.bad(f"object variable {tg[0].id}: two classes / the constructor of {key} is not translated")
+        for n in ast.walk(fd):
+            if not (isinstance(n, ast.Name) and n.id in self.objvars):
+                continue
+            par = parents.get(id(n))
+            gp = parents.get(id(par))
+            if isinstance(n.ctx, ast.Store):
+                ok = isinstance(par, (ast.Assign, ast.AnnAssign)) and is_ctor(par.value)
+            else:
+                ok = (isinstance(par, ast.Attribute) and isinstance(gp, ast.Call) and gp.func is par and not gp.keywords
+                      and par.attr not in MUTATORS and f"{self.objvars[n.id]}.{par.attr}" in self.u.sigs
+                      or isinstance(par, ast.Call) and self.is_builtin(par.func, "next") and par.args == [n] and not par.keywords
+                      or isinstance(par, ast.For) and par.iter is n)
+            if not ok:
+                raise self.bad(f"object variable {n.id} is used where a second reference to the object could be created "
+                               f"(or with a method that is not translated)")
+        if self.objvars and self.in_comprehension(set(self.objvars)):
+            raise self.bad("an object variable inside a comprehension")
+        if (self.objvars or self.method_of is not None) and any(isinstance(n, ast.Try) for n in ast.walk(fd)):
+            raise self.bad("`try` in a method / in a function with object variables (an exception would discard the changes of the object)")
+        # methods
+        if self.method_of is not None:
+            if not self.params or self.init is not None or self.files or self.is_gen:
+                raise self.bad("a method needs a `self` parameter (and cannot be a generator / take file parameters)")
+            me = self.params[0]
+            rets = [n for n in ast.walk(fd) if isinstance(n, ast.Return) and n.value is not None]
+            self.returns_self = bool(rets) and all(isinstance(r.value, ast.Name) and r.value.id == me for r in rets)
+            for n in ast.walk(fd):
+                if not (isinstance(n, ast.Name) and n.id == me):
+                    continue
+                par = parents.get(id(n))
+                gp = parents.get(id(par))
+                if isinstance(par, ast.Return) and self.returns_self and isinstance(n.ctx, ast.Load):
+                    continue
+                if not (isinstance(n.ctx, ast.Load) and isinstance(par, ast.Attribute) and par.value is n and not par.attr.startswith("_")):
+                    raise self.bad(f"`{me}` is used other than as `{me}.attr` / `return {me}`")
+                if isinstance(gp, ast.Call) and gp.func is par:
+                    raise self.bad(f"call of `{me}.{par.attr}(…)` inside a method")
+                if not isinstance(par.ctx, ast.Load):
+                    tgt = gp.targets if isinstance(gp, ast.Assign) else ([gp.target] if isinstance(gp, (ast.AnnAssign, ast.AugAssign)) else [])
+                    if len(tgt) != 1 or tgt[0] is not par:
+                        raise self.bad(f"`{me}.{par.attr}` is assigned other than by `=` / an augmented assignment")
+                    self.mutates = True
+            if self.in_comprehension({me}):
+                raise self.bad(f"`{me}` inside a comprehension")
+            if self.mutates:
+                self.assigned.add(me)
+        # StopIteration
+        def calls_stop(n):
+            if not isinstance(n, ast.Call):
+                return False
+            f = n.func
+            if isinstance(f, ast.Name) and f.id in self.u.sigs and f.id not in self.local:
+                return getattr(self.u.sigs[f.id], "stops", False)
+            if isinstance(f, ast.Attribute) and isinstance(f.value, ast.Name) and f.value.id in self.objvars:
+                return getattr(self.u.sigs.get(f"{self.objvars[f.value.id]}.{f.attr}"), "stops", False)
+            return self.is_builtin(f, "next")
+        raises = any(self.is_stop_raise(n) for n in ast.walk(fd))
+        self.stops = (raises or any(calls_stop(n) for n in ast.walk(fd))
+                      or any(isinstance(n, ast.For) and isinstance(n.iter, ast.Name) and n.iter.id in self.objvars for n in ast.walk(fd)))
+        if self.stops and (self.asserts or self.init is not None or self.files or self.is_gen or self.uses_calls):
+            raise self.bad("StopIteration together with assert / `__init__` / file parameters / yield / a stream function")
+        if raises and self.mutates and self.stop_after_store(fd.body, False) is None:
+            raise self.bad("an attribute is assigned on a path that raises StopIteration afterwards")
+        if self.mutates and any(calls_stop(n) for n in ast.walk(fd)):
+            raise self.bad("a method that assigns attributes calls something that can raise StopIteration")
+
+    def t12_allowed(self) -> set:
+        """reads of a mutable variable that hand out no reference to the object itself: the right operand of `in` / `not in`, the
+        argument of `len(…)` / `enumerate(…)` (the items are copied into a new list), the object of an item read `v[i]` (the item
+        may be shared, but a change of it needs a receiver variable bound to a fresh object).  When such a read is (part of) the
+        iterable of a `for`, the body must not change the variable (the loop runs over a snapshot).  `enumerate(x)` is accepted as
+        the iterable of a `for` only (`PyU.enumerate`: the list of the pairs)."""
+        ok = set()
+        for n in ast.walk(self.fd):
+            if isinstance(n, ast.Compare) and len(n.ops) == 1 and isinstance(n.ops[0], (ast.In, ast.NotIn)) and isinstance(n.comparators[0], ast.Name):
+                ok.add(id(n.comparators[0]))
+            if (isinstance(n, ast.Call) and (self.is_builtin(n.func, "len") or self.is_builtin(n.func, "enumerate")) and len(n.args) == 1
+                    and not n.keywords and isinstance(n.args[0], ast.Name)):
+                ok.add(id(n.args[0]))
+            if isinstance(n, ast.Subscript) and isinstance(n.ctx, ast.Load) and not isinstance(n.slice, ast.Slice) and isinstance(n.value, ast.Name):
+                ok.add(id(n.value))
+        parents = {id(c): n for n in ast.walk(self.fd) for c in ast.iter_child_nodes(n)}
+        for n in ast.walk(self.fd):
+            if isinstance(n, ast.Call) and self.is_builtin(n.func, "enumerate"):
+                par = parents.get(id(n))
+                if not (isinstance(par, ast.For) and par.iter is n) or n.keywords or len(n.args) != 1:
+                    raise self.bad("enumerate(…) other than `for … in enumerate(x)`")
+            if isinstance(n, ast.For):
+                names = {m.id for m in ast.walk(n.iter) if isinstance(m, ast.Name) and m.id in self.mutable and id(m) in ok}
+                if names & self.stores_in(n.body):
+                    raise self.bad("the loop changes a mutable variable its iterable was computed from")
+        return ok
+
+    def in_comprehension(self, names: set) -> bool:
+        return any(isinstance(m, ast.Name) and m.id in names for n in ast.walk(self.fd)
+                   if isinstance(n, (ast.ListComp, ast.DictComp)) for m in ast.walk(n))
+
+    def stop_after_store(self, stmts, dirty):
+        """walks the paths of a block: `dirty` = an attribute of `self` was assigned on the way.  Result: the set of the possible
+        values of `dirty` where the block is left at its end (empty: every path ends in return / raise); None: a
+        `raise StopIteration` can be reached with `dirty`, or the block has a shape this check does not follow"""
+        states = {dirty}
+        for st in stmts:
+            if not states:
+                return states
+            stores = any(isinstance(n, ast.Attribute) and not isinstance(n.ctx, ast.Load) for n in ast.walk(st))
+            stop = any(self.is_stop_raise(n) for n in ast.walk(st))
+            if self.is_stop_raise(st):
+                if True in states:
+                    return None
+                states = set()
+            elif isinstance(st, (ast.Return, ast.Raise)):
+                states = set()
+            elif isinstance(st, ast.If):
+                out = set()
+                for d in states:
+                    for branch in (st.body, st.orelse):
+                        r = self.stop_after_store(branch, d)
+                        if r is None:
+                            return None
+                        out |= r
+                states = out
+            elif stop or (stores and not isinstance(st, (ast.Assign, ast.AnnAssign, ast.AugAssign))):
+                return None
+            elif stores:
+                states = {True}
+        return states
 
     def check_borrows(self) -> set:
         """`m = r.a` for a mutable variable `m` (`r` a parameter or an immutable local): `m` is a *borrowed* part of `r`.  Threading
@@ -431,8 +830,25 @@ class _Fn:
                 out.add(n.func.value.id)
             if isinstance(n, ast.Subscript) and isinstance(n.ctx, ast.Store) and isinstance(n.value, ast.Name):
                 out.add(n.value.id)
+            if (isinstance(n, ast.Call) and isinstance(n.func, ast.Attribute) and isinstance(n.func.value, ast.Name)
+                    and n.func.value.id in self.files and n.func.attr in FILE_METHODS and FILE_METHODS[n.func.attr][4]):
+                out.add(n.func.value.id)       # a file parameter is changed by `.read` / `.seek`
+            if isinstance(n, ast.Yield):
+                out.add(YIELDS)
+            if self.fobj is not None and isinstance(n, ast.Call) and self.t15_fobj_call(n) is not None:
+                out.add(self.fobj[0])          # T15: a file of `self` is moved by `.read` / `.seek`; a method of `self` may do that
+            if isinstance(n, ast.Attribute) and isinstance(n.ctx, ast.Store) and isinstance(n.value, ast.Name) and n.value.id in getattr(self, "mutable", ()):
+                out.add(n.value.id)            # T02: attribute assignment on a fresh instance changes the variable
+            if (isinstance(n, ast.Call) and len(n.args) == 1 and isinstance(n.args[0], ast.Name) and self.local
+                    and self.global_kind(n.func) == "struct"):
+                out.add(n.args[0].id)          # T02: `Struct(fobj)` reads from (changes) the file object
+            if isinstance(n, ast.Name) and n.id in self.objvars:
+                out.add(n.id)                  # an object variable: every use is a method call / `next` / `for` and may change the object
             if isinstance(n, ast.Call) and self.local and self.global_kind(n.func) == "stream":
                 out.add(CALLS)
+            if self.t19_item_store(n) is not None:
+                out.add(self.params[0])        # T19: `self.a[k] = e` / `self.a[k].append(e)` changes the (threaded) first parameter
+            out.update(self.t17_stores(n))     # T17: `<counter>.update(…)`, a file parameter handed to an external generator function
             for c in ast.iter_child_nodes(n):
                 visit(c)
 
@@ -448,7 +864,9 @@ class _Fn:
             return True        # a slice of a list is a copy
         if isinstance(v, ast.Call) and self.is_builtin(v.func, "list") and not v.keywords:
             return True
-        return isinstance(v, ast.Call) and self.global_kind(v.func) == "bytesio"
+        if isinstance(v, ast.ListComp):
+            return True
+        return isinstance(v, ast.Call) and self.global_kind(v.func) in ("bytesio", "struct", "dictctor") + T17_FRESH_KINDS
 
     def use_extern(self, name):
         if name not in self.used_externs:
@@ -490,6 +908,8 @@ class _Fn:
                 if n.id not in self.declared:
                     raise self.bad(f"variable {n.id} may be used before it is assigned on this path")
                 return [], lname(n.id)
+            if self.global_kind(n) == "const":
+                return [], self.global_entry(n)[1]      # T02: a registered module-level constant
             raise self.bad(f"free name {n.id}")
         if isinstance(n, ast.BoolOp):
             # value position: `a or b` is `a` when `a` is true, else `b` (evaluated only then); `and` dually
@@ -523,7 +943,14 @@ class _Fn:
             pa, a = self.expr(n.body, ind)
             pb, b = self.expr(n.orelse, ind)
             if pa or pb:
-                raise self.bad("conditional expression with raising branches")
+                # raising branches: only the chosen branch is evaluated (translated again, one level deeper)
+                if any(isinstance(m, (ast.DictComp, ast.ListComp)) for m in ast.walk(n)):
+                    raise self.bad("conditional expression with raising branches and a comprehension")
+                pa, a = self.expr(n.body, ind + 2)
+                pb, b = self.expr(n.orelse, ind + 2)
+                r = self.fresh()
+                return (pc + [f"{P}let mut {r} := V.none", f"{P}if {c} then"] + pa + [f"{P}  {r} := {a}", f"{P}else"]
+                        + pb + [f"{P}  {r} := {b}"]), r
             return pc, f"(if {c} then {a} else {b})"
         if isinstance(n, (ast.Tuple, ast.List)):
             pre, terms = self.exprs(n.elts, ind)
@@ -558,6 +985,9 @@ class _Fn:
         if isinstance(n, ast.JoinedStr):
             return self.fstring(n, ind)
         if isinstance(n, ast.Attribute):
+            t02 = self.t02_property(n, ind)
+            if t02 is not None:
+                return t02
             if self.global_kind(n.value) == "enum":
                 if n.attr not in getattr(self.u.registry[self.dotted(n.value)][0], "__members__", {}):
                     raise self.bad(f"{ast.unparse(n)} is not a member of the enum")
@@ -567,11 +997,21 @@ class _Fn:
                 po, o = self.expr(n.value, ind)
                 t = self.fresh()
                 return po + [f"{P}let {t} ← PyU.getAttr {o} {lean_string(n.attr)}"], t
+            if self.global_kind(n) == "const":
+                return [], self.global_entry(n)[1]  # T15: a module attribute with a fixed literal value (checked by the plug-in)
+            if self.global_kind(n) == "gparam":
+                name = self.global_entry(n)[1]      # a module attribute read at call time: a value parameter of the definition
+                self.use_extern(name)
+                return [], name
+            if self.global_kind(n) == "const":
+                return [], self.global_entry(n)[1]      # T02: a registered constant such as `io.SEEK_CUR`
             raise self.bad(f"attribute {ast.unparse(n)[:60]}")
         if isinstance(n, ast.Call):
             return self.call(n, ind)
         if isinstance(n, ast.DictComp):
             return self.dictcomp(n, ind)
+        if isinstance(n, ast.ListComp):
+            return self.listcomp(n, ind)
         raise self.bad(f"expression {type(n).__name__}: {ast.unparse(n)[:60]}")
 
     def bind_target(self, target, term, ind) -> list:
@@ -625,6 +1065,42 @@ class _Fn:
         t = self.fresh()
         args = "".join(f" {lname(v)}" for v in captured)
         return pi + [f"{P}let {items} ← PyU.iterList {it}", f"{P}let {t} ← PyU.forList {items} ({name}«XA»{args}) (V.dict [] [])"], t
+
+    def listcomp(self, n: ast.ListComp, ind):
+        """`[e for x in it if c]`: like `dictcomp`; the definition appends one item to the list built so far"""
+        P = " " * ind
+        if len(n.generators) != 1 or n.generators[0].is_async:
+            raise self.bad("comprehension with several `for` clauses")
+        g = n.generators[0]
+        pi, it = self.expr(g.iter, ind)
+        items = self.fresh()
+        self.comps += 1
+        name = f"{lname(self.fd.name)}_comp{self.comps}"
+        targets = {m.id for m in ast.walk(g.target) if isinstance(m, ast.Name)}
+        inner = [n.elt] + list(g.ifs)
+        used = {m.id for e in inner for m in ast.walk(e) if isinstance(m, ast.Name)}
+        if self.stores_in(inner):
+            raise self.bad("a comprehension that changes a variable")
+        captured = [v for v in self.declared if v in used and v not in targets]
+        saved = (list(self.declared), self.in_loop)
+        self.declared = list(captured)
+        self.in_loop = None
+        item = self.fresh()
+        lines = self.bind_target(g.target, item, 2)
+        for c in g.ifs:
+            pc, tc = self.cond(c, 2)
+            lines += pc + [f"  if (!{tc}) then", "    return (PyU.Ctl.cont, st)"]
+        pv, v = self.expr(n.elt, 2)
+        r = self.fresh()
+        lines += pv + [f"  let {r} ← PyU.append st {v}", f"  return (PyU.Ctl.cont, {r})"]
+        self.declared, self.in_loop = saved
+        binders = "".join(f" ({lname(v)} : V)" for v in captured) + f" ({item} : V) (st : V)"
+        self.loop_defs.append(f"/-- one item of comprehension {self.comps} of `{self.fd.name}`; state: the list built so far -/\n"
+                              f"def {name}«XB»{binders} : «M» (PyU.Ctl × V) := do\n" + "\n".join(lines) + "\n")
+        self.loop_names.append(name)
+        t = self.fresh()
+        args = "".join(f" {lname(v)}" for v in captured)
+        return pi + [f"{P}let {items} ← PyU.iterList {it}", f"{P}let {t} ← PyU.forList {items} ({name}«XA»{args}) (V.list [])"], t
 
     def exprs(self, items, ind):
         pre, terms = [], []
@@ -717,6 +1193,18 @@ class _Fn:
         if any(k.arg is None for k in n.keywords):
             raise self.bad(f"**kwargs in {ast.unparse(n)[:60]}")
         entry = self.global_entry(f)
+        t02 = self.t02_call(n, entry, ind)
+        if t02 is not None:
+            return t02
+        t17 = self.t17_call(n, entry, ind)
+        if t17 is not None:
+            return t17
+        if entry is not None and entry[0] == "intenum":      # T19: a Python `enum.IntEnum` class called with one argument
+            if len(n.args) != 1 or n.keywords:
+                raise self.bad(f"{ast.unparse(f)} (an IntEnum class) called with other than one positional argument")
+            pa, a = self.expr(n.args[0], ind)
+            t = self.fresh()
+            return pa + [f"{P}let {t} ← PyU.intEnumCall {entry[1]} {a}"], t
         if entry is not None and entry[0] == "ntcls":
             return self.construct(n, entry[1], self.u.registry[self.dotted(f)][0], ind)
         if entry is not None and entry[0] == "extern":
@@ -745,12 +1233,20 @@ class _Fn:
             return self.codec(n, ind)
         if n.keywords:
             raise self.bad(f"keyword arguments in {ast.unparse(n)[:60]}")
+        if self.fobj is not None and self.t15_fobj_call(n) is not None:
+            return self.t15_fobj_emit(n, ind)
+        if isinstance(f, ast.Attribute) and isinstance(f.value, ast.Name) and f.value.id in self.files and f.attr in FILE_METHODS:
+            return self.file_call(n, ind)
         if isinstance(f, ast.Attribute) and f.attr == "read" and isinstance(f.value, ast.Name) and f.value.id in self.mutable:
             return self.expr_read(n, ind)
         if self.is_builtin(f, "isinstance"):
             p, c = self.cond(n, ind)
             return p, f"(V.bool {c})"
-        if entry is not None:
+        if isinstance(f, ast.Attribute) and isinstance(f.value, ast.Name) and f.value.id in self.objvars:
+            return self.obj_call(f.value.id, f.attr, n.args, ind)
+        if self.is_builtin(f, "next") and len(n.args) == 1 and isinstance(n.args[0], ast.Name) and n.args[0].id in self.objvars:
+            return self.obj_call(n.args[0].id, "__next__", [], ind)
+        if entry is not None and entry[0] != "obj":     # (kind `obj`: the constructor call is the call of the translated `__init__`, below)
             kind, term = entry
             pre, args = self.exprs(n.args, ind)
             if kind == "stream":
@@ -777,10 +1273,32 @@ class _Fn:
                     raise self.bad(f"{ast.unparse(f)} called with {len(args)} arguments (registered with {arity})")
                 return pre + [f"{P}let {t} ← {name} {' '.join(args)}"], t
             raise self.bad(f"registry kind {kind}")
+        if self.is_builtin(f, "range") and len(n.args) == 1 and getattr(self.u, "t15_builtins", False):
+            pa, a = self.expr(n.args[0], ind)      # T15: only as the iterable of a `for` (checked by `t15_analyse`)
+            t = self.fresh()
+            return pa + [f"{P}let {t} ← PyU.rangeV {a}"], t
+        if self.is_builtin(f, "max") and len(n.args) == 2 and getattr(self.u, "t15_builtins", False):
+            pa, args = self.exprs(n.args, ind)
+            t = self.fresh()
+            return pa + [f"{P}let {t} ← PyU.max2 {args[0]} {args[1]}"], t
         if self.is_builtin(f, "len") and len(n.args) == 1:
             pa, a = self.expr(n.args[0], ind)
             t = self.fresh()
             return pa + [f"{P}let {t} ← PyU.len {a}"], t
+        if isinstance(f, ast.Name) and f.id in BUILTIN1 and self.is_builtin(f, f.id) and len(n.args) == 1:
+            pa, a = self.expr(n.args[0], ind)
+            t = self.fresh()
+            return pa + [f"{P}let {t} ← {BUILTIN1[f.id]} {a}"], t
+        if self.is_builtin(f, "enumerate") and len(n.args) == 1:
+            pa, a = self.expr(n.args[0], ind)
+            t = self.fresh()
+            return pa + [f"{P}let {t} ← PyU.enumerate {a}"], t
+        if self.is_builtin(f, "int") and len(n.args) == 2:
+            if self.u.int_tables is None:
+                raise self.bad("`int(x, base)`: the plug-in did not provide the Unicode tables")
+            pre, args = self.exprs(n.args, ind)
+            t = self.fresh()
+            return pre + [f"{P}let {t} ← PyU.intBase {self.u.int_tables} {args[0]} {args[1]}"], t
         if self.is_builtin(f, "list") and len(n.args) == 1:
             pa, a = self.expr(n.args[0], ind)
             t = self.fresh()
@@ -839,6 +1357,52 @@ class _Fn:
                 t = self.fresh()
                 return po + pre + [f"{P}let {t} ← " + " ".join([fn_, o] + args)], t
         raise self.bad(f"call {ast.unparse(n)[:70]}")
+
+    def attr_store(self, st):
+        """`self.a = e` / `self.a: T = e` / `self.a op= e` in a method: (attribute, value expression, operator or None)"""
+        if isinstance(st, ast.Assign) and len(st.targets) == 1:
+            tg, value, op = st.targets[0], st.value, None
+        elif isinstance(st, ast.AnnAssign) and st.value is not None:
+            tg, value, op = st.target, st.value, None
+        elif isinstance(st, ast.AugAssign):
+            tg, value, op = st.target, st.value, st.op
+        else:
+            return None
+        if isinstance(tg, ast.Attribute) and isinstance(tg.value, ast.Name) and tg.value.id == self.params[0]:
+            return tg.attr, value, op
+        return None
+
+    def obj_call(self, var, meth, argnodes, ind, catch=False):
+        """`var.meth(args)` for an object variable (see `analyse_objects`): the call of the translated method with the object as
+        first argument; a method that mutates answers `(result, object afterwards)` and the variable is rebound.  `catch`: the
+        call of `__next__` by a `for` statement — StopIteration leaves the loop"""
+        P = " " * ind
+        sg = self.obj_sig(var, meth)
+        if var not in self.declared:
+            raise self.bad(f"variable {var} may be used before it is assigned on this path")
+        params = sg.params[1:]
+        if len(argnodes) > len(params):
+            raise self.bad(f"too many arguments for {meth}")
+        pre, args = self.exprs(argnodes, ind)
+        for p, d in params[len(args):]:
+            if d is None:
+                raise self.bad(f"missing argument {p} of {meth}")
+            args.append(d)
+        if sg.fuel or sg.externs or sg.asserts or (sg.stops and not self.stops) or (catch and not sg.stops):
+            raise self.bad(f"method {meth}: loops / external functions / assert are not supported in methods")
+        term = f"{sg.name} {' '.join([lname(var)] + args)}"
+        t = self.fresh()
+        if catch:
+            pre += [f"{P}let {t} ← PyU.catchStop ({term})", f"{P}if {t}.1 then", self.exit_loop("brk", ind + 2)]
+            val = f"{t}.2"
+        else:
+            pre.append(f"{P}let {t} ← {term}")
+            val = t
+        if sg.mutates:
+            r = self.fresh()
+            pre += [f"{P}let {r} ← PyU.unpack2 {val}", f"{P}{lname(var)} := {r}.2"]
+            val = f"{r}.1"
+        return pre, val
 
     def codec(self, n: ast.Call, ind):
         """`x.decode(encoding, errors)` / `x.encode(encoding, errors)` with literal arguments (positional or keyword)"""
@@ -931,14 +1495,51 @@ class _Fn:
                 continue  # docstring
             if isinstance(st, ast.Pass):
                 continue
+            t19 = self.t19_stmt(st, ind, stmts)  # T19: `self.a[k] = e` / `self.a[k].append(e)`, `try … except <Builtin>` with a handler that goes on
+            if t19 is not None:
+                out += t19[0]
+                term = t19[1]
+                continue
+            t17 = self.t17_stmt(st, ind)         # T17: `<counter>.update(<generator expression>)`
+            if t17 is not None:
+                out += t17
+                continue
+            t15 = self.t15_stmt(st, ind, stmts)  # T15: `try … except OSError` with a handler that goes on, hoisted `if` variables
+            if t15 is not None:
+                out += t15[0]
+                term = t15[1]
+                continue
+            t02 = self.t02_stmt(st, ind)       # T02: try / except, attribute assignment on a fresh instance, hoisted `if` variables
+            if t02 is not None:
+                out += t02[0]
+                term = t02[1]
+                continue
             if isinstance(st, ast.Return):
                 if self.in_loop is not None:
                     raise self.bad("return inside a loop")
                 if st.value is None:
                     raise self.bad("bare return")
                 p, t = self.expr(st.value, ind)
-                out += p + [f"{P}return {t}"]
+                out += p + [f"{P}return {self.result_term(t)}"]
                 term = True
+            elif self.is_stop_raise(st):
+                if not self.stops:
+                    raise self.bad("raise StopIteration (analysis)")
+                out.append(f"{P}throw PyU.ExcS.stop")
+                term = True
+            elif self.method_of is not None and self.attr_store(st) is not None:
+                # `self.a = e` / `self.a += e` in a method: `self` is rebound to the changed instance
+                me, (attr, value, op) = lname(self.params[0]), self.attr_store(st)
+                p, t = self.expr(value, ind)
+                if op is not None:
+                    if type(op) not in BINOP:
+                        raise self.bad(f"operator {type(op).__name__}")
+                    old, new = self.fresh(), self.fresh()
+                    p = [f"{P}let {old} ← PyU.getAttr {me} {lean_string(attr)}"] + p + [
+                        f"{P}let {new} ← PyU.{'iadd' if isinstance(op, ast.Add) else BINOP[type(op)]} {old} {t}"]
+                    t = new
+                r = self.fresh()
+                out += p + [f"{P}let {r} ← PyU.setAttr {me} {lean_string(attr)} {t}", f"{P}{me} := {r}"]
             elif isinstance(st, ast.Raise):
                 exc = st.exc
                 name = exc.func.id if isinstance(exc, ast.Call) and isinstance(exc.func, ast.Name) else (exc.id if isinstance(exc, ast.Name) else None)
@@ -1007,6 +1608,9 @@ class _Fn:
                 t = self.fresh()
                 op = "iadd" if isinstance(st.op, ast.Add) else BINOP[type(st.op)]
                 out += p + [f"{P}let {t} ← PyU.{op} {lname(st.target.id)} {b}", f"{P}{lname(st.target.id)} := {t}"]
+            elif isinstance(st, ast.Expr) and isinstance(st.value, ast.Yield):
+                p, t = self.expr(st.value.value, ind)
+                out += p + [f"{P}ys0 := PyU.yieldTo ys0 {t}"]
             elif isinstance(st, ast.Expr) and isinstance(st.value, ast.Call):
                 out += self.call_stmt(st.value, ind)
             elif isinstance(st, ast.If):
@@ -1057,6 +1661,194 @@ class _Fn:
         p, t = self.expr(c, ind)
         return p       # the call is bound in the prelude; its value is discarded
 
+    # ---- T15: an object whose attributes hold file objects (`self.fh`), `try … except OSError`, hoisted variables -------------
+    def t15_fobj_call(self, n: ast.Call):
+        """`self.<file attribute>.<read|seek|tell>(…)` -> ("file", attribute, method); `self.<translated method>(…)` -> ("method", name)"""
+        o, fattrs, meths = self.fobj
+        f = n.func
+        if not isinstance(f, ast.Attribute):
+            return None
+        if (isinstance(f.value, ast.Attribute) and isinstance(f.value.value, ast.Name) and f.value.value.id == o
+                and f.value.attr in fattrs and f.attr in FILE_METHODS):
+            return ("file", f.value.attr, f.attr)
+        if isinstance(f.value, ast.Name) and f.value.id == o and f.attr in meths:
+            return ("method", f.attr)
+        return None
+
+    def t15_analyse(self):
+        """A function translated with `unit.t15_fobj = (self name, file attributes, methods)`: its first parameter is an instance that
+        OWNS the file objects held by the listed attributes (nothing else refers to them while a method runs — assumed of the
+        callers).  `self` may occur only as `self.<file attribute>.read/seek/tell(…)`, as the receiver of a listed method (translated
+        before, with the same `t15_fobj`), or as `self.<attribute>` read as a value (not a file attribute).  The instance is threaded
+        as a value; the translated definition returns the tuple `(result, self afterwards)`.
+        `range(…)` only as the iterable of a `for`.  `try`: see `t15_try`."""
+        fd = self.fd
+        parents = {id(c): n for n in ast.walk(fd) for c in ast.iter_child_nodes(n)}
+        for n in ast.walk(fd):
+            if isinstance(n, ast.Call) and self.is_builtin_name(n.func, "range") and getattr(self.u, "t15_builtins", False):
+                par = parents.get(id(n))
+                if not (isinstance(par, ast.For) and par.iter is n) or n.keywords:
+                    raise self.bad("range(…) other than as the iterable of a `for`")
+        if self.fobj is None:
+            return
+        o, fattrs, meths = self.fobj
+        if self.is_gen or self.init is not None or self.files:
+            raise self.bad("a method of a file-owning object cannot be a generator / `__init__` / take file parameters")
+        for n in ast.walk(fd):
+            if not (isinstance(n, ast.Name) and n.id == o):
+                continue
+            par = parents.get(id(n))
+            gp = parents.get(id(par))
+            ggp = parents.get(id(gp))
+            ok = False
+            if isinstance(n.ctx, ast.Load) and isinstance(par, ast.Attribute) and par.value is n and isinstance(par.ctx, ast.Load):
+                if par.attr in fattrs:
+                    ok = (isinstance(gp, ast.Attribute) and gp.value is par and gp.attr in FILE_METHODS and isinstance(ggp, ast.Call)
+                          and ggp.func is gp and not ggp.keywords)
+                elif par.attr in meths:
+                    ok = isinstance(gp, ast.Call) and gp.func is par and not gp.keywords and meths[par.attr] in self.u.sigs
+                else:
+                    ok = not par.attr.startswith("_") and not (isinstance(gp, ast.Call) and gp.func is par)
+            if not ok:
+                raise self.bad(f"`{o}` is used other than as {o}.<file>.read/seek/tell(…), {o}.<translated method>(…) or {o}.<attribute>")
+        if self.in_comprehension({o}):
+            raise self.bad(f"`{o}` inside a comprehension")
+
+    def is_builtin_name(self, n, name) -> bool:
+        return isinstance(n, ast.Name) and n.id == name and self.globs.get(name, getattr(builtins, name)) is getattr(builtins, name)
+
+    def t15_fobj_emit(self, n: ast.Call, ind):
+        P = " " * ind
+        o = self.fobj[0]
+        what = self.t15_fobj_call(n)
+        if o not in self.declared:
+            raise self.bad(f"{o} is not bound here")
+        if what[0] == "file":
+            _, attr, m = what
+            fn_, lo, hi, dflt, changes = FILE_METHODS[m]
+            if not lo <= len(n.args) <= hi:
+                raise self.bad(f"{m} with {len(n.args)} arguments")
+            a = self.fresh()
+            pre = [f"{P}let {a} ← PyU.getAttr {lname(o)} {lean_string(attr)}"]      # `self.fh` is evaluated before the arguments
+            pa, args = self.exprs(n.args, ind)
+            args += dflt[len(args):]
+            r = self.fresh()
+            pre += pa + [f"{P}let {r} ← " + " ".join([fn_, a] + args)]
+            if not changes:
+                return pre, r
+            s = self.fresh()
+            return pre + [f"{P}let {s} ← PyU.setAttr {lname(o)} {lean_string(attr)} {r}.2", f"{P}{lname(o)} := {s}"], f"{r}.1"
+        sg = self.u.sigs[self.fobj[2][what[1]]]
+        if getattr(sg, "fobj", None) != o or sg.asserts or getattr(sg, "stops", False):
+            raise self.bad(f"{what[1]} was not translated as a method of the same file-owning object")
+        rest = sg.params[1:]
+        if len(n.args) > len(rest):
+            raise self.bad(f"too many arguments for {what[1]}")
+        pre, args = self.exprs(n.args, ind)
+        for pname, d in rest[len(args):]:
+            if d is None:
+                raise self.bad(f"missing argument {pname} of {what[1]}")
+            args.append(d)
+        if sg.fuel:
+            self.needs_fuel = True
+        for e in sg.externs:
+            self.use_extern(e)
+        r, q = self.fresh(), self.fresh()
+        call = " ".join([sg.name] + list(sg.externs) + (["fuel"] if sg.fuel else []) + [lname(o)] + args)
+        return pre + [f"{P}let {r} ← {call}", f"{P}let {q} ← PyU.unpack2 {r}", f"{P}{lname(o)} := {q}.2"], f"{q}.1"
+
+    def t15_def_assigned(self, stmts):
+        """(variables that every path through the block that reaches its end assigns by `x = e`, the block never reaches its end)"""
+        out, term = [], False
+        for st in stmts:
+            if isinstance(st, (ast.Raise, ast.Return, ast.Break, ast.Continue)):
+                term = True
+            elif isinstance(st, ast.Assign) and len(st.targets) == 1 and isinstance(st.targets[0], ast.Name):
+                if st.targets[0].id not in out:
+                    out.append(st.targets[0].id)
+            elif isinstance(st, ast.If) and st.orelse:
+                (a, ta), (b, tb) = self.t15_def_assigned(st.body), self.t15_def_assigned(st.orelse)
+                both = b if ta else (a if tb else [v for v in a if v in b])
+                out += [v for v in both if v not in out]
+                term = term or (ta and tb)
+            elif isinstance(st, ast.Try) and len(st.handlers) == 1 and not st.orelse and not st.finalbody:
+                (a, _), (b, tb) = self.t15_def_assigned(st.body), self.t15_def_assigned(st.handlers[0].body)
+                out += [v for v in (a if tb else [v for v in a if v in b]) if v not in out]
+        return out, term
+
+    def t15_stmt(self, st, ind, stmts):
+        """(lines, terminates) or None.  Active only for units with `t15_builtins`.
+        * an `if` / `try` statement that assigns, on every path that goes on, a variable which is not bound yet and is read by a later
+          statement of the same block: the variable is declared before the statement (Lean scoping; the value `None` is never read);
+        * `try: <body> except OSError: <handler>` whose handler goes on (see `t15_try`)."""
+        if not getattr(self.u, "t15_builtins", False) or not isinstance(st, (ast.If, ast.Try)):
+            return None
+        if id(st) in self.t15_follow:          # second visit (after the hoisting below)
+            if isinstance(st, ast.Try) and self.fobj is not None:
+                return self.t15_try(st, ind), False
+            return None
+        later = stmts[stmts.index(st) + 1:]
+        self.t15_follow[id(st)] = later
+        read_later = {n.id for s in later for n in ast.walk(s) if isinstance(n, ast.Name) and isinstance(n.ctx, ast.Load)}
+        new = [v for v in self.t15_def_assigned([st])[0] if v not in self.declared and v in read_later and v not in self.mutable]
+        lines = [self.bind(v, "V.none", ind) for v in new]
+        body, term = self.block([st], ind)
+        return lines + body, term
+
+    def t15_try(self, st: ast.Try, ind) -> list:
+        """`try: <body> except OSError: <handler>`, both without loop / return / break / continue / yield / raise / nested try
+        (checked by T02's `t02_check_try` and here).  Translated with Lean's `try … catch`: when the body raises, what it did before
+        is discarded — EXACT here because the only operation of the run-time library that raises OSError is `PyU.fileSeek`, which
+        leaves the file as it was, and every line of the translated body before the LAST operation that may raise OSError (a
+        `PyU.fileSeek`, a loop, or a call outside the run-time library) only binds a fresh temporary.  Any other exception propagates."""
+        P = " " * ind
+        h = st.handlers[0]
+        if (st.orelse or st.finalbody or len(st.handlers) != 1 or h.name is not None or not isinstance(h.type, ast.Name)
+                or h.type.id != "OSError" or not self.is_builtin(h.type, "OSError") or self.asserts or getattr(self, "stops", False)):
+            raise self.bad("try statement other than `try: … except OSError: …`")
+        for part in (st.body, h.body):
+            for b in part:
+                for n in ast.walk(b):
+                    if isinstance(n, (ast.While, ast.For, ast.DictComp, ast.ListComp, ast.Raise, ast.Return, ast.Break, ast.Continue,
+                                      ast.Yield, ast.Try, ast.Assert)):
+                        raise self.bad(f"{type(n).__name__} inside a try statement")
+        if any(isinstance(n, ast.Name) and n.id == "exc0" for n in ast.walk(self.fd)):
+            raise self.bad("variable name exc0 clashes with the translator's own names")
+        saved = list(self.declared)
+        body, _ = self.block(st.body, ind + 2)
+        self.declared = list(saved)
+        may = [i for i, l in enumerate(body) if "PyU.fileSeek" in l or "PyU.whileFuel" in l or "PyU.forList" in l
+               or (" ← " in l and not re.search(r"← PyU\.", l))]
+        if may and not all(re.match(r"\s*let t\d+ (←|:=) ", l) for l in body[:may[-1]]):
+            raise self.bad("try: something is changed before the last operation that can raise OSError")
+        handler, _ = self.block(h.body, ind + 4)
+        self.declared = list(saved)
+        return ([f"{P}try"] + (body or [f"{P}  pure ()"]) + [f"{P}catch exc0 =>", f"{P}  if exc0 = PyExc.osError then"]
+                + (handler or [f"{P}    pure ()"]) + [f"{P}  else", f"{P}    throw exc0"])
+
+    def file_call(self, n, ind):
+        """`f.read(n)` / `f.seek(off[, whence])` / `f.tell()` for a file parameter f: (prelude incl. the rebinding of f, term)"""
+        P = " " * ind
+        v = n.func.value.id
+        fn_, lo, hi, dflt, changes = FILE_METHODS[n.func.attr]
+        if not lo <= len(n.args) <= hi:
+            raise self.bad(f"{n.func.attr} with {len(n.args)} arguments")
+        pre, args = self.exprs(n.args, ind)
+        args += dflt[len(args):]
+        r = self.fresh()
+        pre = pre + [f"{P}let {r} ← " + " ".join([fn_, lname(v)] + args)]
+        if not changes:
+            return pre, r
+        return pre + [f"{P}{lname(v)} := {r}.2"], f"{r}.1"
+
+    def result_term(self, t=None) -> str:
+        """what the translated definition returns: the value (a generator: the list of its yields), with the file parameters"""
+        t = lname(YIELDS) if self.is_gen else t
+        if self.mutates:       # a method that assigns attributes: (result, `self` afterwards)
+            return f"(V.tuple [{t}, {lname(self.params[0])}])"
+        objs = list(self.files) + ([self.fobj[0]] if self.fobj is not None else [])     # T15: + the `self` that owns files
+        return f"(V.tuple [{', '.join([t] + [lname(f) for f in objs])}])" if objs else t
+
     def expr_read(self, n, ind):
         """`p.read(k)` for a mutable variable p: (prelude incl. the rebinding of p, term)"""
         P = " " * ind
@@ -1075,7 +1867,11 @@ class _Fn:
         P = " " * ind
         is_for = isinstance(st, ast.For)
         if st.orelse:
+            if is_for and getattr(self.u, "t17", False):
+                return self.t17_for_else(st, ind)
             raise self.bad("loop … else")
+        if is_for and isinstance(st.iter, ast.Name) and st.iter.id in self.objvars:
+            return self.loop_obj(st, ind)
         if not is_for and self.asserts:
             raise self.bad("`while` in a function with `assert`")
         pre = []
@@ -1130,10 +1926,935 @@ class _Fn:
         if is_for:
             out = pre + [f"{P}let {r} ← PyU.forList {items} ({name}«XA»{args}) {tuple_term([lname(v) for v in state])}"]
         else:
-            out = [f"{P}let {r} ← PyU.whileFuel fuel ({name}«XA»{args}) {tuple_term([lname(v) for v in state])}"]
+            out = [f"{P}let {r} ← PyU.whileFuel{'S' if self.stops else ''} fuel ({name}«XA»{args}) {tuple_term([lname(v) for v in state])}"]
         for k, v in enumerate(state):
             out.append(f"{P}{lname(v)} := {r if len(state) == 1 else '(' + proj(k, len(state)).replace('st', r, 1) + ')'}")
         return out
+
+    def loop_obj(self, st, ind) -> list:
+        """`for x in v: body` for an object variable `v` (see `analyse_objects`) whose class has a translated `__iter__` that returns
+        `self` and a translated `__next__`: `v.__iter__()` once, then `v.__next__()` before every run of the body until it raises
+        StopIteration (`PyU.catchStop`); the number of runs is not known beforehand, so the loop is run by `PyU.whileFuelS`"""
+        P = " " * ind
+        var = st.iter.id
+        if self.in_loop is not None or not self.obj_sig(var, "__iter__").returns_self:
+            raise self.bad("`for` over an object inside another loop / `__iter__` does not return `self`")
+        self.obj_sig(var, "__next__")
+        out, _ = self.obj_call(var, "__iter__", [], ind)
+        self.loops += 1
+        self.needs_fuel = True
+        name = f"{lname(self.fd.name)}_loop{self.loops}"
+        stored = self.stores_in([st])
+        used = {n.id for n in ast.walk(st) if isinstance(n, ast.Name)}
+        state = [v for v in self.declared if v in stored]
+        captured = [v for v in self.declared if v in used and v not in stored]
+        if any(isinstance(n, (ast.While, ast.For)) for s in st.body for n in ast.walk(s)) or CALLS in stored or YIELDS in stored:
+            raise self.bad("a loop / a stream function / yield inside a `for` over an object")
+        if any(isinstance(n, ast.Call) and isinstance(n.func, ast.Name) and n.func.id in self.u.sigs and self.u.sigs[n.func.id].fuel
+               for s in st.body for n in ast.walk(s)):
+            raise self.bad("a call of a function with loops inside a `for` over an object")
+        saved = (list(self.declared), self.in_loop)
+        self.declared = list(captured) + list(state)
+        self.in_loop = state
+        lines = [f"  let mut {lname(v)} := {proj(k, len(state))}" for k, v in enumerate(state)]
+        pn, item = self.obj_call(var, "__next__", [], 2, catch=True)
+        lines += pn + self.bind_target(st.target, item, 2)
+        body, term = self.block(st.body, 2)
+        lines += body
+        if not term:
+            lines.append(self.exit_loop("cont", 2))
+        self.declared, self.in_loop = saved
+        sigma = tuple_type(len(state))
+        binders = "".join(f" ({lname(v)} : V)" for v in captured) + f" (st : {sigma})"
+        self.loop_defs.append(f"/-- body of loop {self.loops} of `{self.fd.name}`; `for {ast.unparse(st.target)} in {var}` (one call of `__next__`, "
+                              f"then the body), state: ({', '.join(lname(v) for v in state)}) -/\n"
+                              f"def {name}«XB»{binders} : «M» (PyU.Ctl × ({sigma})) := do\n" + "\n".join(lines) + "\n")
+        self.loop_names.append(name)
+        r = self.fresh()
+        args = "".join(f" {lname(v)}" for v in captured)
+        out.append(f"{P}let {r} ← PyU.whileFuelS fuel ({name}«XA»{args}) {tuple_term([lname(v) for v in state])}")
+        for k, v in enumerate(state):
+            out.append(f"{P}{lname(v)} := {r if len(state) == 1 else '(' + proj(k, len(state)).replace('st', r, 1) + ')'}")
+        return out
+
+    # ==== T02 (iter_settings / settings_map of beacon.py; run-time: lean/CsVerif/Model/PyU_T02.lean) ==============================
+    def t02_owned(self):
+        """parameters the plug-in declared (`unit.owned_params = {function name: [parameter, …]}`) as possibly holding a mutable
+        object of the caller (a BytesIO): the parameter may be the receiver of mutating methods; the in-place change of the caller's
+        object is not part of the translated result.  A function with such a parameter cannot be called by a translated function."""
+        return getattr(self.u, "owned_params", {}).get(self.fd.name, ())
+
+    def t02_struct_arg(self, n):
+        """`Struct(v)` for a registered cstruct structure class and a variable: the Name node of `v`"""
+        if (isinstance(n, ast.Call) and not n.keywords and len(n.args) == 1 and isinstance(n.args[0], ast.Name)
+                and self.global_kind(n.func) == "struct"):
+            return n.args[0]
+        return None
+
+    def t02_mutables(self) -> set:
+        """more mutable variables: the file object a structure is read from, the receiver of an attribute assignment"""
+        out = set()
+        for n in ast.walk(self.fd):
+            recv, what = self.t02_struct_arg(n), "a structure read from"
+            if isinstance(n, ast.Attribute) and isinstance(n.ctx, ast.Store):
+                recv, what = n.value, "attribute assignment on"
+                if not isinstance(recv, ast.Name):
+                    raise self.bad(f"attribute assignment {ast.unparse(n)[:40]} on something that is not a variable")
+            if recv is None or (isinstance(recv, ast.Name) and recv.id in self.files):
+                continue
+            if isinstance(recv, ast.Name) and recv.id == self.t02_self_name():
+                continue       # `self.a = …` in a method: handled by the objects analysis
+            ok = recv.id in self.assigned and (recv.id not in self.params or recv.id in self.t02_owned())
+            if not ok:
+                raise self.bad(f"{what} {recv.id}, which is not a local variable bound to a fresh object")
+            out.add(recv.id)
+        return out
+
+    def t02_self_name(self):
+        return self.params[0] if getattr(self, "method_of", None) is not None and self.params else None
+
+    def t02_allowed(self) -> set:
+        """positions where a mutable variable may occur without creating a second reference that this function could observe:
+        the first argument of `isinstance`, the argument of `io.BytesIO(…)` (the content is copied), the file argument of
+        `Struct(f)`, the object of an attribute read `v.a` (assumed: attribute values are immutable or never changed through the
+        read reference — a change needs a receiver variable bound to a fresh object) or attribute assignment, and `yield v` under
+        the condition of `t02_checks`"""
+        fd = self.fd
+        ok = set()
+        for n in ast.walk(fd):
+            if isinstance(n, ast.Call) and self.is_builtin(n.func, "isinstance") and n.args and isinstance(n.args[0], ast.Name):
+                ok.add(id(n.args[0]))
+            if isinstance(n, ast.Call) and self.global_kind(n.func) == "bytesio":
+                ok |= {id(a) for a in n.args if isinstance(a, ast.Name)}
+            a = self.t02_struct_arg(n)
+            if a is not None:
+                ok.add(id(a))
+            if isinstance(n, ast.Attribute) and isinstance(n.value, ast.Name) and n.value.id in self.mutable and not n.attr.startswith("_"):
+                ok.add(id(n.value))
+        ok |= self.t02_checks()
+        return ok
+
+    def t02_checks(self) -> set:
+        """`try` statements and yields of mutable variables.
+        `yield v` for a mutable variable `v`: the consumer gets a reference to the object, so the generator must never change it
+        afterwards — required: the statement is the last one of the body of a loop, and every assignment of `v` is inside that body
+        (then `v` is local to one iteration: the translator rejects a use before the assignment in the same iteration and after the loop)."""
+        fd = self.fd
+        ok = set()
+        parents = {id(c): n for n in ast.walk(fd) for c in ast.iter_child_nodes(n)}
+        for st in ast.walk(fd):
+            if isinstance(st, ast.Expr) and isinstance(st.value, ast.Yield) and isinstance(st.value.value, ast.Name) \
+                    and st.value.value.id in self.mutable and not self.t17_yield_ok(st, parents):
+                v = st.value.value.id
+                loop = parents.get(id(st))
+                if not isinstance(loop, (ast.While, ast.For)) or loop.body[-1] is not st:
+                    raise self.bad(f"`yield {v}` of a mutable variable that is not the last statement of a loop body")
+                inside = {id(m) for b in loop.body for m in ast.walk(b)}
+                for m in ast.walk(fd):
+                    if isinstance(m, ast.Name) and m.id == v and isinstance(m.ctx, ast.Store) and id(m) not in inside:
+                        raise self.bad(f"`yield {v}`: the mutable variable is also assigned outside the loop")
+                if v in self.params:
+                    raise self.bad(f"`yield {v}` of a parameter")
+                ok.add(id(st.value.value))
+        for st in ast.walk(fd):
+            if isinstance(st, ast.Try):
+                self.t02_check_try(st, parents)
+        return ok
+
+    def t02_try_excs(self, st: ast.Try) -> list:
+        if st.orelse or st.finalbody or len(st.handlers) != 1 or st.handlers[0].name is not None or st.handlers[0].type is None:
+            raise self.bad("try with else / finally / several handlers / `except … as e` / a bare `except`")
+        ty = st.handlers[0].type
+        names = ty.elts if isinstance(ty, ast.Tuple) else [ty]
+        out = []
+        for e in names:
+            if not (isinstance(e, ast.Name) and e.id in EXC and self.is_builtin(e, e.id)):
+                raise self.bad(f"except {ast.unparse(ty)[:40]}")
+            # the builtin exception classes of EXC are unrelated, except that PyExc.valueError also stands for UnicodeError
+            # and PyExc.osError for its subclasses; `except LookupError` / `except Exception` are not expressible
+            out.append(EXC[e.id])
+        return out
+
+    def t02_check_try(self, st: ast.Try, parents):
+        """`try: <body> except <Builtin>[, …]: <handler>` — every raising operation of the body is guarded on its own
+        (`PyU.attempt`), so the assignments made before the exception persist as in Python.  Required for exactness:
+          * the body contains no loop, comprehension, `raise`, `return`, `break`, `continue`, `yield`, nested `try`, `assert`
+            and no call of a function with an `assert` (the operation that raises is then always one bind of this block);
+          * the handler ends in `break` / `raise` / `return` on every path;
+          * a MUTABLE variable changed in the body (an operation that raises may leave the real object half-changed, e.g. a file
+            position) is dead when the handler runs: not mentioned in the handler; and if the handler leaves a loop by `break`,
+            that loop is a top-level statement of the function and the variable does not occur after it; no `continue`."""
+        self.t02_try_excs(st)
+        for b in st.body:
+            for n in ast.walk(b):
+                if isinstance(n, (ast.While, ast.For, ast.DictComp, ast.ListComp, ast.Raise, ast.Return, ast.Break, ast.Continue,
+                                  ast.Yield, ast.Try, ast.Assert)):
+                    raise self.bad(f"{type(n).__name__} inside the body of a try statement")
+                if isinstance(n, ast.Call) and isinstance(n.func, ast.Name) and n.func.id in self.u.sigs and n.func.id not in self.local \
+                        and self.u.sigs[n.func.id].asserts:
+                    raise self.bad("a call of a function with `assert` inside the body of a try statement")
+        if self.asserts or getattr(self, "stops", False):
+            raise self.bad("try in a function with `assert` / StopIteration")
+        handler = st.handlers[0].body
+        hnodes = [n for h in handler for n in ast.walk(h)]
+        if any(isinstance(n, (ast.While, ast.For, ast.Try, ast.Yield, ast.Continue)) for n in hnodes):
+            raise self.bad("loop / try / yield / continue inside an exception handler")
+        dirty = {v for v in self.stores_in(st.body) if v in self.mutable or v in self.files}
+        if dirty & {n.id for n in hnodes if isinstance(n, ast.Name)}:
+            raise self.bad(f"the exception handler mentions {sorted(dirty)}, which the try body may have left half-changed")
+        if dirty and any(isinstance(n, ast.Break) for n in hnodes):
+            loop = parents.get(id(st))
+            while loop is not None and not isinstance(loop, (ast.While, ast.For)):
+                loop = parents.get(id(loop))
+            if loop is not None and getattr(self.u, "t17", False) and not (dirty & set(self.files)) \
+                    and all(self.t17_confined(v, loop, parents) for v in dirty):
+                return         # T17: the half-changed objects are dead when the handler leaves the loop (see `t17_confined`)
+            if loop is None or loop not in self.fd.body:
+                raise self.bad("`break` in an exception handler: the loop must be a top-level statement of the function")
+            after = self.fd.body[self.fd.body.index(loop) + 1:]
+            if dirty & {n.id for a in after for n in ast.walk(a) if isinstance(n, ast.Name)} or dirty & set(self.files):
+                raise self.bad(f"{sorted(dirty)} is used after the loop that an exception handler leaves")
+
+    def t02_def_assigned(self, stmts) -> list:
+        """variables (plain names) that every path through the block assigns (only `x = e` and if / else are followed)"""
+        out = []
+        for st in stmts:
+            if isinstance(st, (ast.Assign, ast.AnnAssign)) and st.value is not None:
+                for t in (st.targets if isinstance(st, ast.Assign) else [st.target]):
+                    if isinstance(t, ast.Name) and t.id not in out:
+                        out.append(t.id)
+            elif isinstance(st, ast.If) and st.orelse:
+                a, b = self.t02_def_assigned(st.body), self.t02_def_assigned(st.orelse)
+                out += [v for v in a if v in b and v not in out]
+        return out
+
+    def t02_stmt(self, st, ind):
+        """statements of the T02 subset: (lines, terminates) or None"""
+        P = " " * ind
+        if isinstance(st, ast.Try):
+            return self.t02_try(st, ind), False
+        if isinstance(st, ast.If) and getattr(self.u, "hoist_if_vars", False):
+            new = [v for v in self.t02_def_assigned([st]) if v not in self.declared and v not in self.mutable]
+            if new:
+                # a variable that both branches assign is declared before the `if` (Lean scoping); the value is never read
+                lines = [self.bind(v, "V.none", ind) for v in new]
+                body, term = self.block([st], ind)
+                return lines + body, term
+            return None
+        target = None
+        if isinstance(st, ast.Assign) and len(st.targets) == 1:
+            target = st.targets[0]
+        elif isinstance(st, (ast.AugAssign, ast.AnnAssign)) and st.value is not None:
+            target = st.target
+        if not (isinstance(target, ast.Attribute) and isinstance(target.value, ast.Name) and target.value.id in self.mutable
+                and target.value.id != self.t02_self_name()):
+            return None
+        v = target.value.id
+        if target.attr.startswith("_"):
+            raise self.bad(f"assignment to the attribute {target.attr}")
+        if v not in self.declared:
+            raise self.bad(f"variable {v} may be used before it is assigned on this path")
+        out = []
+        if isinstance(st, ast.AugAssign):
+            if type(st.op) not in BINOP:
+                raise self.bad(f"operator {type(st.op).__name__}")
+            a = self.fresh()
+            out.append(f"{P}let {a} ← PyU.getAttr {lname(v)} {lean_string(target.attr)}")
+            p, b = self.expr(st.value, ind)
+            t = self.fresh()
+            op = "iadd" if isinstance(st.op, ast.Add) else BINOP[type(st.op)]
+            out += p + [f"{P}let {t} ← PyU.{op} {a} {b}"]
+        else:
+            p, t = self.expr(st.value, ind)
+            out += p
+        r = self.fresh()
+        out += [f"{P}let {r} ← PyU.instSetAttr {lname(v)} {lean_string(target.attr)} {t}", f"{P}{lname(v)} := {r}"]
+        return out, False
+
+    def t02_try(self, st: ast.Try, ind) -> list:
+        """see `t02_check_try`; the handler is translated once, with the variables that are declared when the `try` starts, and
+        put behind every guarded bind of the body"""
+        P = " " * ind
+        excs = self.t02_try_excs(st)
+        saved = list(self.declared)
+        handler, term = self.block(st.handlers[0].body, 0)
+        self.declared = list(saved)
+        if not term:
+            raise self.bad("an exception handler that does not end in break / raise / return on every path")
+        body, bterm = self.block(st.body, ind)
+        if body and body[-1].strip() == "pure ()":
+            body.pop()
+        out = []
+        for line in body:
+            m = re.fullmatch(r"(\s*)let (t\d+) ← (.*)", line)
+            if m is None:
+                if "←" in line or line.strip().startswith("throw") or line.strip().startswith("return"):
+                    raise self.bad("a statement inside `try` that the translator cannot guard")
+                out.append(line)
+                continue
+            sp, t, rhs = m.groups()
+            out.append(f"{sp}let some {t} ← PyU.attempt [{', '.join(excs)}] ({rhs})")
+            out.append(f"{sp}  | do")
+            out += [f"{sp}      {h}" for h in handler]
+        if body and re.fullmatch(r"(\s*)let (t\d+) ← (.*)", body[-1]):
+            out.append(f"{P}pure ()")      # a Lean `do` block cannot end with a binding
+        return out
+
+    def t02_property(self, n: ast.Attribute, ind):
+        """`self.<name>` in a method, for a read-only property whose getter the plug-in translated before
+        (`unit.t02_properties = {property name: key of the translated getter}`): the call of the getter"""
+        props = getattr(self.u, "t02_properties", {})
+        if not (isinstance(n.ctx, ast.Load) and n.attr in props and isinstance(n.value, ast.Name) and self.params
+                and n.value.id == self.params[0] and n.value.id not in self.assigned and n.value.id not in self.mutable):
+            return None
+        sg = self.u.sigs[props[n.attr]]
+        if len(sg.params) != 1 or sg.asserts and not self.asserts:
+            raise self.bad(f"property getter {n.attr}: more than the `self` parameter / `assert`")
+        if sg.fuel:
+            self.needs_fuel = True
+        for e in sg.externs:
+            self.use_extern(e)
+        t = self.fresh()
+        args = list(sg.externs) + (["fuel"] if sg.fuel else []) + [lname(n.value.id)]
+        return [f"{' ' * ind}let {t} ← {sg.name} {' '.join(args)}"], t
+
+    def t02_call(self, n: ast.Call, entry, ind):
+        """calls of the T02 subset: (prelude, term) or None"""
+        P = " " * ind
+        f = n.func
+        if isinstance(f, ast.Name) and f.id in self.u.sigs and f.id not in self.local and getattr(self.u, "owned_params", {}).get(f.id):
+            # the callee may change the object passed for an `owned` parameter in place; the value-threading translation of the
+            # caller is exact only when that argument is immutable (e.g. `bytes`) or never looked at again
+            if not getattr(self.u, "owned_calls_assume_immutable", False):
+                raise self.bad(f"call of {f.id}, which may change its argument {self.u.owned_params[f.id]} in place")
+        if entry is not None and entry[0] == "struct":
+            a = self.t02_struct_arg(n)
+            if a is None or a.id not in self.mutable:
+                raise self.bad(f"{ast.unparse(n)[:50]}: a structure is read from a variable that holds a BytesIO")
+            if a.id not in self.declared:
+                raise self.bad(f"variable {a.id} may be used before it is assigned on this path")
+            r = self.fresh()
+            return [f"{P}let {r} ← PyU.structRead {entry[1]} {lname(a.id)}", f"{P}{lname(a.id)} := {r}.2"], f"{r}.1"
+        if entry is not None and entry[0] == "dictctor":
+            if n.args or n.keywords:
+                raise self.bad(f"{ast.unparse(n)[:50]}: only the empty constructor call")
+            return [], "(V.dict [] [])"
+        if isinstance(f, ast.Attribute) and f.attr == "seek" and isinstance(f.value, ast.Name) and f.value.id in self.mutable \
+                and f.value.id not in self.files:
+            v = f.value.id
+            if v not in self.declared:
+                raise self.bad(f"variable {v} may be used before it is assigned on this path")
+            if n.keywords or not 1 <= len(n.args) <= 2:
+                raise self.bad("seek with keyword arguments / other than one or two arguments")
+            pre, args = self.exprs(n.args, ind)
+            if len(args) == 1:
+                args.append("(V.int 0)")
+            r = self.fresh()
+            return pre + [f"{P}let {r} ← PyU.bioSeek {lname(v)} {args[0]} {args[1]}", f"{P}{lname(v)} := {r}.2"], f"{r}.1"
+        if n.keywords:
+            return None
+        for name, op in (("str", "PyU.strOf"), ("tuple", "PyU.tupleOf"), ("max", "PyU.maxOf")):
+            if self.is_builtin(f, name) and len(n.args) == 1 and getattr(self.u, "t02_builtins", False):
+                pa, a = self.expr(n.args[0], ind)
+                t = self.fresh()
+                if name == "str":
+                    if getattr(self.u, "enum_names", None) is None:
+                        raise self.bad("`str(x)`: the plug-in did not provide the names of the enum classes")
+                    op = f"PyU.strOf {self.u.enum_names}"
+                return pa + [f"{P}let {t} ← {op} {a}"], t
+        if isinstance(f, ast.Name) and f.id in self.local and "%callvalue" in self.u.registry and len(n.args) == 1:
+            # a call of a value (a function object held by a local variable): the external function `%callvalue`
+            name = self.u.registry["%callvalue"][2][0]
+            if f.id not in self.declared:
+                raise self.bad(f"variable {f.id} may be used before it is assigned on this path")
+            if f.id in self.mutable:
+                raise self.bad(f"call of the mutable variable {f.id}")
+            pa, a = self.expr(n.args[0], ind)
+            self.use_extern(name)
+            t = self.fresh()
+            return pa + [f"{P}let {t} ← {name} {lname(f.id)} {a}"], t
+        return None
+
+    # ==== T17 (guardrails.py; run-time: lean/CsVerif/Model/PyU_T17.lean) =========================================================
+    def t17_on(self) -> bool:
+        return bool(getattr(self.u, "t17", False))
+
+    def t17_reg_kind(self, f):
+        """registry kind of a called name, by its spelling only (usable before `self.local` exists; that the name denotes the
+        registered object is checked by `global_entry` when the call is translated, shadowing locals by `analyse`)"""
+        try:
+            d = ast.unparse(f)
+        except Exception:  # noqa: BLE001
+            return None
+        ent = self.u.registry.get(d)
+        return (ent[1], d) if ent is not None else None
+
+    def t17_is_filegen(self, n) -> bool:
+        """`g(f)`: an external generator function (`unit.t17_filegens`) called with one file parameter"""
+        if not (self.t17_on() and isinstance(n, ast.Call) and not n.keywords and len(n.args) == 1 and isinstance(n.args[0], ast.Name)
+                and n.args[0].id in self.files):
+            return False
+        k = self.t17_reg_kind(n.func)
+        return k is not None and k[0] == "extern" and k[1] in getattr(self.u, "t17_filegens", ())
+
+    def t17_genexp_ok(self, g) -> bool:
+        """a generator expression is accepted only as the sole argument of the expression statement `<name>.update(<genexp>)`
+        (that `<name>` is a counter variable is checked by `t17_stmt`)"""
+        if not self.t17_on():
+            return False
+        for st in ast.walk(self.fd):
+            if (isinstance(st, ast.Expr) and isinstance(st.value, ast.Call) and st.value.args == [g] and not st.value.keywords
+                    and isinstance(st.value.func, ast.Attribute) and st.value.func.attr == "update" and isinstance(st.value.func.value, ast.Name)):
+                return True
+        return False
+
+    def t17_file_uses(self) -> set:
+        """more places where a file parameter may occur: the argument of an external generator function that is the iterable of
+        a `for` statement without `break` (the loop consumes the generator completely; the generator is run to its end BEFORE the
+        first run of the body — exact when the body does not touch the file and the generator cannot raise after its first
+        `yield`, or the body cannot raise; the file as the generator leaves it is part of the external function's answer), and an
+        argument of a call without effect (kind `noop`, e.g. `log.info("%r", fh)`)"""
+        ok = set()
+        if not self.t17_on():
+            return ok
+        parents = {id(c): n for n in ast.walk(self.fd) for c in ast.iter_child_nodes(n)}
+        for n in ast.walk(self.fd):
+            if self.t17_is_filegen(n):
+                par = parents.get(id(n))
+                if not (isinstance(par, ast.For) and par.iter is n):
+                    raise self.bad(f"{ast.unparse(n)[:50]}: an external generator function may only be the iterable of a `for`")
+                if any(isinstance(m, ast.Name) and m.id == n.args[0].id for b in par.body + par.orelse for m in ast.walk(b)):
+                    raise self.bad(f"the body of the loop over {ast.unparse(n)[:40]} uses the file the generator reads")
+                if self.t17_breaks_of(par) or par.orelse:
+                    raise self.bad(f"the loop over {ast.unparse(n)[:40]} has a `break` / `else` (the generator must be consumed completely)")
+                ok.add(id(n.args[0]))
+            elif isinstance(n, ast.Call) and not n.keywords and (self.t17_reg_kind(n.func) or (None,))[0] == "noop":
+                ok |= {id(a) for a in n.args if isinstance(a, ast.Name) and a.id in self.files}
+        return ok
+
+    def t17_breaks_of(self, loop) -> list:
+        """the `break` statements that leave `loop`"""
+        out = []
+
+        def visit(stmts):
+            for s in stmts:
+                if isinstance(s, ast.Break):
+                    out.append(s)
+                elif isinstance(s, (ast.For, ast.While)):
+                    visit(s.orelse)
+                elif isinstance(s, ast.If):
+                    visit(s.body)
+                    visit(s.orelse)
+                elif isinstance(s, ast.Try):
+                    visit(s.body)
+                    visit(s.orelse)
+                    visit(s.finalbody)
+                    for h in s.handlers:
+                        visit(h.body)
+        visit(loop.body)
+        return out
+
+    def t17_stores(self, n) -> set:
+        out = set()
+        if not self.t17_on():
+            return out
+        if self.files and self.t17_is_filegen(n):
+            out.add(n.args[0].id)
+        if (isinstance(n, ast.Call) and isinstance(n.func, ast.Attribute) and n.func.attr == "update" and isinstance(n.func.value, ast.Name)
+                and n.func.value.id in getattr(self, "t17_vars", {})):
+            out.add(n.func.value.id)
+        return out
+
+    def t17_mutables(self) -> set:
+        """COUNTER variables (every assignment is `v = collections.Counter()`) and READER variables (every assignment is
+        `v = io.BufferedReader(io.BytesIO(e))`): local variables, not parameters"""
+        self.t17_vars = {}
+        if not self.t17_on():
+            return set()
+        for n in ast.walk(self.fd):
+            if isinstance(n, (ast.Assign, ast.AnnAssign)) and n.value is not None and isinstance(n.value, ast.Call):
+                kind = self.global_kind(n.value.func)
+                if kind in T17_FRESH_KINDS:
+                    tg = n.targets if isinstance(n, ast.Assign) else [n.target]
+                    if len(tg) != 1 or not isinstance(tg[0], ast.Name) or tg[0].id in self.params:
+                        raise self.bad(f"{ast.unparse(n.value)[:40]} must be bound to a local variable")
+                    if self.t17_vars.setdefault(tg[0].id, kind) != kind:
+                        raise self.bad(f"variable {tg[0].id} holds objects of two kinds")
+        for n in ast.walk(self.fd):
+            if isinstance(n, ast.Call) and self.global_kind(n.func) in T17_FRESH_KINDS:
+                pass       # (position checked below: every such call is the value of an assignment counted above)
+        parents = {id(c): n for n in ast.walk(self.fd) for c in ast.iter_child_nodes(n)}
+        for n in ast.walk(self.fd):
+            if isinstance(n, ast.Call) and self.global_kind(n.func) in T17_FRESH_KINDS:
+                par = parents.get(id(n))
+                if not (isinstance(par, (ast.Assign, ast.AnnAssign)) and par.value is n):
+                    raise self.bad(f"{ast.unparse(n)[:40]} must be the whole right-hand side of an assignment")
+        for v, kind in self.t17_vars.items():
+            for n in ast.walk(self.fd):
+                if not (isinstance(n, ast.Name) and n.id == v):
+                    continue
+                par = parents.get(id(n))
+                gp = parents.get(id(par))
+                if isinstance(n.ctx, ast.Store):
+                    ok = (isinstance(par, (ast.Assign, ast.AnnAssign)) and par.value is not None and isinstance(par.value, ast.Call)
+                          and self.global_kind(par.value.func) == kind)
+                elif kind == "counterctor":
+                    ok = (isinstance(par, ast.Attribute) and par.value is n and isinstance(gp, ast.Call) and gp.func is par and not gp.keywords
+                          and (par.attr == "most_common" and len(gp.args) <= 1
+                               or par.attr == "update" and len(gp.args) == 1 and isinstance(gp.args[0], ast.GeneratorExp)
+                               and isinstance(parents.get(id(gp)), ast.Expr)))
+                else:
+                    ok = (isinstance(par, ast.Attribute) and par.value is n and par.attr == "peek" and isinstance(gp, ast.Call) and gp.func is par
+                          and not gp.keywords and len(gp.args) == 1
+                          or isinstance(par, ast.Call) and par.args == [n] and not par.keywords and self.global_kind(par.func) == "struct")
+                if not ok:
+                    raise self.bad(f"variable {v} ({kind}) is used other than by the methods the translator models for it")
+        return set(self.t17_vars)
+
+    def t17_confined(self, v, stmt, parents) -> bool:
+        """the mutable variable `v` is DEAD after the statement `stmt`: `v` has exactly one assignment, a statement of the block
+        that contains `stmt`, in front of `stmt`; `v` is not mentioned behind `stmt` in that block; and every other mention of `v`
+        in the function lies between the two.  A block is always entered at its first statement, so whenever `v` is used again it
+        has been bound to a fresh object since."""
+        holder = parents.get(id(stmt))
+        blocks = [b for b in (getattr(holder, "body", None), getattr(holder, "orelse", None), getattr(holder, "finalbody", None))
+                  if isinstance(b, list) and stmt in b]
+        if len(blocks) != 1 or v in self.params:
+            return False
+        blk = blocks[0]
+        j = blk.index(stmt)
+        stores = [n for n in ast.walk(self.fd) if isinstance(n, ast.Name) and n.id == v and isinstance(n.ctx, ast.Store)]
+        idx = [i for i, s in enumerate(blk[:j]) if isinstance(s, (ast.Assign, ast.AnnAssign)) and s.value is not None
+               and any(t is stores[0] for t in (s.targets if isinstance(s, ast.Assign) else [s.target]))] if len(stores) == 1 else []
+        if len(idx) != 1:
+            return False
+        inside = {id(m) for s in blk[idx[0]:j + 1] for m in ast.walk(s)}
+        return all(id(n) in inside for n in ast.walk(self.fd) if isinstance(n, ast.Name) and n.id == v)
+
+    def t17_fresh_target(self, v):
+        """the `for` statement whose target is the mutable variable `v` and whose iterable is an external generator function
+        handed a file parameter (assumed of such a function: it yields objects nothing else refers to, pairwise different) — the
+        only binding of `v`; or None"""
+        stores = [n for n in ast.walk(self.fd) if isinstance(n, ast.Name) and n.id == v and isinstance(n.ctx, ast.Store)]
+        loops = [n for n in ast.walk(self.fd) if isinstance(n, ast.For) and n.target in stores]
+        if len(stores) == 1 and len(loops) == 1 and self.t17_is_filegen(loops[0].iter) and v not in self.params:
+            return loops[0]
+        return None
+
+    def t17_yield_ok(self, st, parents) -> bool:
+        """`yield v` for a mutable variable `v` bound by `for v in <external generator>(f):` (see `t17_fresh_target`): the consumer
+        gets a reference to the object, so `v` must not be mentioned again in the same run of that loop's body.  Followed from the
+        `yield` outwards: the rest of each enclosing block must not mention `v`; a `break` directly behind the `yield` leaves the
+        nearest loop (its `else` is skipped); the end of a loop's `else` clause goes on behind that loop; any other way of staying
+        inside an inner loop is refused."""
+        if not self.t17_on():
+            return False
+        v = st.value.value.id
+        top = self.t17_fresh_target(v)
+        if top is None:
+            return False
+        node, leaving = st, False
+        while True:
+            holder = parents.get(id(node))
+            if holder is None or isinstance(holder, (ast.Try, ast.With, ast.FunctionDef)):
+                return False
+            in_body = node in getattr(holder, "body", [])
+            blk = holder.body if in_body else holder.orelse
+            rest = blk[blk.index(node) + 1:]
+            if not leaving:
+                if node is st and rest and isinstance(rest[0], ast.Break):
+                    leaving = True
+                elif any(isinstance(m, ast.Name) and m.id == v for s in rest for m in ast.walk(s)):
+                    return False
+            if isinstance(holder, (ast.For, ast.While)):
+                if holder is top:
+                    return in_body and not leaving
+                if in_body and not leaving:
+                    return False       # the inner loop may run its body again
+                leaving = False        # left by `break`, or the `else` clause ended: go on behind the inner loop
+            elif not isinstance(holder, ast.If):
+                return False
+            node = holder
+
+    def t17_allowed(self) -> set:
+        """positions where a mutable variable may occur: the target of `for v in <external generator>(f)` (a fresh object per
+        item), the receiver of `.peek` / `.most_common` / `.update`, `yield v` (see `t17_yield_ok`), and an argument of a dataclass
+        constructor inside `yield Cls(…)` when the variable is dead afterwards (`t17_confined`: the consumer keeps the only live
+        reference).  Also checked here: `range(a, b)` only as the iterable of a `for`; the result of a one-shot iterator function
+        (kind `kwfunc` with the flag `oneshot`) is bound to a variable that is used exactly once, as the iterable of a
+        comprehension / `for` in a later statement of the same block."""
+        ok = set()
+        if not self.t17_on():
+            return ok
+        fd = self.fd
+        parents = {id(c): n for n in ast.walk(fd) for c in ast.iter_child_nodes(n)}
+        for v in self.mutable:
+            loop = self.t17_fresh_target(v)
+            if loop is not None:
+                ok.add(id(loop.target))
+        for n in ast.walk(fd):
+            if (isinstance(n, ast.Call) and isinstance(n.func, ast.Attribute) and isinstance(n.func.value, ast.Name)
+                    and n.func.value.id in self.t17_vars and n.func.attr in ("peek", "most_common", "update")):
+                ok.add(id(n.func.value))
+            if isinstance(n, ast.Expr) and isinstance(n.value, ast.Yield) and isinstance(n.value.value, ast.Name) \
+                    and n.value.value.id in self.mutable and self.t17_yield_ok(n, parents):
+                ok.add(id(n.value.value))
+            if isinstance(n, ast.Expr) and isinstance(n.value, ast.Yield) and isinstance(n.value.value, ast.Call) \
+                    and self.global_kind(n.value.value.func) == "dcls":
+                c = n.value.value
+                for a in list(c.args) + [k.value for k in c.keywords]:
+                    if isinstance(a, ast.Name) and a.id in self.mutable and self.t17_confined(a.id, n, parents):
+                        ok.add(id(a))
+            if isinstance(n, ast.Call) and self.is_builtin_name(n.func, "range") and len(n.args) == 2:
+                par = parents.get(id(n))
+                if not (isinstance(par, ast.For) and par.iter is n) or n.keywords:
+                    raise self.bad("range(a, b) other than as the iterable of a `for`")
+            if isinstance(n, ast.Call) and self.global_kind(n.func) == "kwfunc" and self.global_entry(n.func)[1][3]:
+                par = parents.get(id(n))
+                tg = (par.targets if isinstance(par, ast.Assign) else []) if par is not None and getattr(par, "value", None) is n else []
+                holder = parents.get(id(par))
+                blk = next((b for b in (getattr(holder, "body", None), getattr(holder, "orelse", None)) if isinstance(b, list) and par in b), None)
+                if len(tg) != 1 or not isinstance(tg[0], ast.Name) or blk is None:
+                    raise self.bad(f"{ast.unparse(n)[:40]}: a one-shot iterator must be bound to a variable by a plain assignment")
+                v = tg[0].id
+                uses = [m for m in ast.walk(fd) if isinstance(m, ast.Name) and m.id == v]
+                loads = [m for m in uses if isinstance(m.ctx, ast.Load)]
+                later = {id(m) for s in blk[blk.index(par) + 1:] for m in ast.walk(s)}
+                up = parents.get(id(loads[0])) if len(loads) == 1 else None
+                if not (len(uses) == 2 and len(loads) == 1 and id(loads[0]) in later and v not in self.params
+                        and (isinstance(up, ast.comprehension) and up.iter is loads[0] or isinstance(up, ast.For) and up.iter is loads[0])):
+                    raise self.bad(f"the one-shot iterator {v} must be used exactly once, as the iterable of a later comprehension / `for`")
+                # the use must not be inside a loop that the assignment is outside of (the iterator would be exhausted the second time)
+                q = parents.get(id(loads[0]))
+                while q is not None and q is not holder:
+                    if isinstance(q, (ast.For, ast.While)) and not (isinstance(q, ast.For) and q.iter is loads[0]):
+                        raise self.bad(f"the one-shot iterator {v} is used inside a loop that does not rebind it")
+                    q = parents.get(id(q))
+        return ok
+
+    def t17_call(self, n: ast.Call, entry, ind):
+        """calls of the T17 subset: (prelude, term) or None"""
+        if not self.t17_on():
+            return None
+        P = " " * ind
+        f = n.func
+        if self.t17_is_filegen(n) and entry is not None and entry[0] == "extern":
+            name = entry[1][0]
+            fv = n.args[0].id
+            self.use_extern(name)
+            t, r = self.fresh(), self.fresh()
+            return [f"{P}let {t} ← {name} {lname(fv)}", f"{P}let {r} ← PyU.unpack2 {t}", f"{P}{lname(fv)} := {r}.2"], f"{r}.1"
+        if entry is not None and entry[0] == "dcls":
+            term, fields, defaults = entry[1]
+            if len(n.args) > len(fields):
+                raise self.bad(f"too many arguments for {ast.unparse(f)}")
+            pre, args = self.exprs(n.args, ind)
+            vals = dict(zip(fields, args))
+            for k in n.keywords:
+                if k.arg not in fields or k.arg in vals:
+                    raise self.bad(f"{ast.unparse(f)}: unexpected / repeated field {k.arg}")
+                p, t = self.expr(k.value, ind)
+                pre += p
+                vals[k.arg] = t
+            for fl in fields:
+                if fl not in vals:
+                    if fl not in defaults:
+                        raise self.bad(f"{ast.unparse(f)}: missing field {fl}")
+                    vals[fl] = const_term(defaults[fl])
+            return pre, f"(V.inst {term} [{', '.join(vals[fl] for fl in fields)}])"
+        if entry is not None and entry[0] == "kwfunc":
+            name, params, defaults, _ = entry[1]
+            if len(n.args) > len(params):
+                raise self.bad(f"too many arguments for {ast.unparse(f)}")
+            pre, args = self.exprs(n.args, ind)
+            vals = dict(zip(params, args))
+            for k in n.keywords:
+                if k.arg not in params or k.arg in vals:
+                    raise self.bad(f"{ast.unparse(f)}: unexpected / repeated argument {k.arg}")
+                p, t = self.expr(k.value, ind)
+                pre += p
+                vals[k.arg] = t
+            for p_ in params:
+                if p_ not in vals:
+                    if p_ not in defaults:
+                        raise self.bad(f"{ast.unparse(f)}: missing argument {p_}")
+                    vals[p_] = const_term(defaults[p_])
+            t = self.fresh()
+            return pre + [f"{P}let {t} ← {name} {' '.join(vals[p_] for p_ in params)}"], t
+        if entry is not None and entry[0] == "counterctor":
+            if n.args or n.keywords:
+                raise self.bad(f"{ast.unparse(n)[:50]}: only the empty constructor call")
+            return [], "(V.dict [] [])"
+        if entry is not None and entry[0] == "bufreader":
+            if n.keywords or len(n.args) != 1 or not (isinstance(n.args[0], ast.Call) and self.global_kind(n.args[0].func) == "bytesio"):
+                raise self.bad(f"{ast.unparse(n)[:50]}: only `io.BufferedReader(io.BytesIO(e))`")
+            pa, a = self.expr(n.args[0], ind)
+            t = self.fresh()
+            return pa + [f"{P}let {t} ← PyU.newBufReader {a}"], t
+        if isinstance(f, ast.Attribute) and isinstance(f.value, ast.Name) and f.value.id in self.t17_vars and not n.keywords:
+            v, kind = f.value.id, self.t17_vars[f.value.id]
+            if v not in self.declared:
+                raise self.bad(f"variable {v} may be used before it is assigned on this path")
+            if kind == "bufreader" and f.attr == "peek" and len(n.args) == 1:
+                pa, a = self.expr(n.args[0], ind)
+                t = self.fresh()
+                return pa + [f"{P}let {t} ← PyU.peek {lname(v)} {a}"], t
+            if kind == "counterctor" and f.attr == "most_common" and len(n.args) <= 1:
+                pa, args = self.exprs(n.args, ind)
+                t = self.fresh()
+                return pa + [f"{P}let {t} ← PyU.mostCommon {lname(v)} {args[0] if args else 'V.none'}"], t
+            raise self.bad(f"{ast.unparse(n)[:50]}: not a modelled method of a {kind} variable")
+        if n.keywords:
+            return None
+        if self.is_builtin(f, "range") and len(n.args) == 2:
+            pa, args = self.exprs(n.args, ind)     # only as the iterable of a `for` (checked by `t17_allowed`)
+            t = self.fresh()
+            return pa + [f"{P}let {t} ← PyU.range2V {args[0]} {args[1]}"], t
+        if self.is_builtin(f, "bytes") and len(n.args) == 1:
+            pa, a = self.expr(n.args[0], ind)
+            t = self.fresh()
+            return pa + [f"{P}let {t} ← PyU.bytesOf17 {a}"], t
+        return None
+
+    def t17_stmt(self, st, ind):
+        """`c.update(e for x in it if cond)` for a counter variable `c`: the items are counted one by one, as the generator
+        expression delivers them — a definition of its own (the targets are local to it) run by `PyU.forList` over the items of
+        `it` (evaluated in the enclosing scope), state: the counter"""
+        if not (self.t17_on() and isinstance(st, ast.Expr) and isinstance(st.value, ast.Call) and isinstance(st.value.func, ast.Attribute)
+                and st.value.func.attr == "update" and isinstance(st.value.func.value, ast.Name)
+                and self.t17_vars.get(st.value.func.value.id) == "counterctor"):
+            return None
+        P = " " * ind
+        c = st.value
+        v = c.func.value.id
+        if len(c.args) != 1 or c.keywords or not isinstance(c.args[0], ast.GeneratorExp):
+            raise self.bad("Counter.update with something other than one generator expression")
+        if v not in self.declared:
+            raise self.bad(f"variable {v} may be used before it is assigned on this path")
+        g0 = c.args[0]
+        if len(g0.generators) != 1 or g0.generators[0].is_async:
+            raise self.bad("generator expression with several `for` clauses")
+        g = g0.generators[0]
+        pi, it = self.expr(g.iter, ind)
+        items = self.fresh()
+        self.comps += 1
+        name = f"{lname(self.fd.name)}_comp{self.comps}"
+        targets = {m.id for m in ast.walk(g.target) if isinstance(m, ast.Name)}
+        inner = [g0.elt] + list(g.ifs)
+        used = {m.id for e in inner for m in ast.walk(e) if isinstance(m, ast.Name)}
+        if self.stores_in(inner) or v in used:
+            raise self.bad("a generator expression that changes a variable / mentions the counter it feeds")
+        captured = [w for w in self.declared if w in used and w not in targets]
+        saved = (list(self.declared), self.in_loop)
+        self.declared = list(captured)
+        self.in_loop = None
+        item = self.fresh()
+        lines = self.bind_target(g.target, item, 2)
+        for cnd in g.ifs:
+            pc, tc = self.cond(cnd, 2)
+            lines += pc + [f"  if (!{tc}) then", "    return (PyU.Ctl.cont, st)"]
+        pv, tv = self.expr(g0.elt, 2)
+        r = self.fresh()
+        lines += pv + [f"  let {r} ← PyU.counterIncr st {tv}", f"  return (PyU.Ctl.cont, {r})"]
+        self.declared, self.in_loop = saved
+        binders = "".join(f" ({lname(w)} : V)" for w in captured) + f" ({item} : V) (st : V)"
+        self.loop_defs.append(f"/-- one item of generator expression {self.comps} of `{self.fd.name}` (the argument of `{v}.update`); "
+                              f"state: the counter -/\n"
+                              f"def {name}«XB»{binders} : «M» (PyU.Ctl × V) := do\n" + "\n".join(lines) + "\n")
+        self.loop_names.append(name)
+        t = self.fresh()
+        args = "".join(f" {lname(w)}" for w in captured)
+        return pi + [f"{P}let {items} ← PyU.iterList {it}", f"{P}let {t} ← PyU.forList {items} ({name}«XA»{args}) {lname(v)}",
+                     f"{P}{lname(v)} := {t}"]
+
+    def t17_for_else(self, st: ast.For, ind) -> list:
+        """`for x in e: body else: tail` — the loop is translated as without `else` but run by `PyU.forListElse`, which also answers
+        whether the items were exhausted (no `break`); then `tail` runs in the enclosing scope"""
+        P = " " * ind
+        bare = ast.For(target=st.target, iter=st.iter, body=st.body, orelse=[], type_comment=None)
+        ast.copy_location(bare, st)
+        lines = self.loop(bare, ind)
+        hits = [i for i, l in enumerate(lines) if re.match(r"\s*let t\d+ ← PyU\.forList ", l)]
+        if len(hits) != 1:
+            raise self.bad("for … else: cannot find the loop in its translation")
+        m = re.match(r"(\s*)let (t\d+) ← PyU\.forList (.*)", lines[hits[0]])
+        q = self.fresh()
+        lines[hits[0]:hits[0] + 1] = [f"{m.group(1)}let {q} ← PyU.forListElse {m.group(3)}", f"{m.group(1)}let {m.group(2)} := {q}.2"]
+        saved = list(self.declared)
+        tail, _ = self.block(st.orelse, ind + 2)
+        self.declared = list(saved)
+        return lines + [f"{P}if {q}.1 then"] + (tail or [f"{P}  pure ()"])
+
+    # ==== T19 (client.py; run-time: lean/CsVerif/Model/PyU_T19.lean) — active for units with `unit.t19 = True` ====================
+    def t19_item_store(self, n):
+        """`me.a[k] = e` (the Subscript node in Store context) / `me.a[k].append(e)` (the Call node) for the first parameter `me`:
+        ("set" | "append", attribute, key expression), else None"""
+        if not getattr(self.u, "t19", False) or not self.params:
+            return None
+        me = self.params[0]
+
+        def item(sub):
+            if (isinstance(sub, ast.Subscript) and not isinstance(sub.slice, ast.Slice) and isinstance(sub.value, ast.Attribute)
+                    and isinstance(sub.value.value, ast.Name) and sub.value.value.id == me and not sub.value.attr.startswith("_")):
+                return sub.value.attr, sub.slice
+            return None
+
+        if isinstance(n, ast.Subscript) and isinstance(n.ctx, ast.Store) and item(n) is not None:
+            return ("set",) + item(n)
+        if (isinstance(n, ast.Call) and isinstance(n.func, ast.Attribute) and n.func.attr == "append" and isinstance(n.func.value, ast.Subscript)
+                and isinstance(n.func.value.ctx, ast.Load) and item(n.func.value) is not None):
+            return ("append",) + item(n.func.value)
+        return None
+
+    def t19_analyse(self):
+        """A function with the statements `me.a[k] = e` / `me.a[k].append(e)` (`me` = its first parameter, an instance that OWNS the
+        dict `me.a` and the lists in it: nothing else refers to them — assumed of the callers, and checked by the plug-in for the
+        class).  The instance is threaded as a value: the statement rebinds `me` to the changed instance.  That is exact when this
+        function cannot hold a second reference to the instance, the dict or one of the lists: `me` occurs only as `me.<attr>` and
+        in `return me`; `me.a` (for an attribute `a` that is changed) occurs only in these two statements and as the right operand
+        of `in` / `not in`; the two forms occur only as whole statements (`t19_stmt`; anywhere else they are rejected by `call` /
+        the assignment arm)."""
+        self.t19_seen = set()
+        if not getattr(self.u, "t19", False) or not self.params:
+            return
+        fd, me = self.fd, self.params[0]
+        stores = [self.t19_item_store(n) for n in ast.walk(fd)]
+        attrs = {s[1] for s in stores if s is not None}
+        if not attrs:
+            return
+        if self.is_gen or self.init is not None or self.files or self.fobj is not None or self.method_of is not None or self.asserts or self.stops:
+            raise self.bad("item assignment on an attribute of the first parameter in a generator / `__init__` / method_of / assert function")
+        parents = {id(c): n for n in ast.walk(fd) for c in ast.iter_child_nodes(n)}
+        for n in ast.walk(fd):
+            if isinstance(n, ast.Name) and n.id == me:
+                par = parents.get(id(n))
+                if isinstance(par, ast.Return) and par.value is n:
+                    continue
+                if not (isinstance(n.ctx, ast.Load) and isinstance(par, ast.Attribute) and par.value is n and isinstance(par.ctx, ast.Load)):
+                    raise self.bad(f"`{me}` is used other than as `{me}.<attr>` / `return {me}` in a function that changes `{me}.{sorted(attrs)[0]}[…]`")
+                if par.attr in attrs:
+                    gp = parents.get(id(par))
+                    ggp = parents.get(id(gp))
+                    ok = (isinstance(gp, ast.Subscript) and gp.value is par and (self.t19_item_store(gp) is not None or self.t19_item_store(parents.get(id(ggp))) is not None and ggp.value is gp)
+                          or isinstance(gp, ast.Compare) and len(gp.ops) == 1 and isinstance(gp.ops[0], (ast.In, ast.NotIn)) and gp.comparators[0] is par)
+                    if not ok:
+                        raise self.bad(f"`{me}.{par.attr}` is used other than in `{me}.{par.attr}[k] = e`, `{me}.{par.attr}[k].append(e)`, `k in {me}.{par.attr}`")
+        if self.in_comprehension({me}):
+            raise self.bad(f"`{me}` inside a comprehension")
+
+    def t19_allowed(self) -> set:
+        """a truth test (`if v:` / `not v`) reads the object, it cannot create a second reference"""
+        ok = set()
+        if getattr(self.u, "t19", False):
+            for n in ast.walk(self.fd):
+                if isinstance(n, (ast.If, ast.While, ast.IfExp)) and isinstance(n.test, ast.Name):
+                    ok.add(id(n.test))
+                if isinstance(n, ast.UnaryOp) and isinstance(n.op, ast.Not) and isinstance(n.operand, ast.Name):
+                    ok.add(id(n.operand))
+        return ok
+
+    def t19_def_assigned(self, stmts):
+        """(variables that every path through the block that reaches its end assigns by `x = e`, the block never reaches its end)"""
+        out, term = [], False
+        for st in stmts:
+            if isinstance(st, (ast.Raise, ast.Return, ast.Break, ast.Continue)):
+                term = True
+            elif isinstance(st, (ast.Assign, ast.AnnAssign)) and getattr(st, "value", None) is not None:
+                for t in (st.targets if isinstance(st, ast.Assign) else [st.target]):
+                    if isinstance(t, ast.Name) and t.id not in out:
+                        out.append(t.id)
+            elif isinstance(st, ast.If) and st.orelse:
+                (a, ta), (b, tb) = self.t19_def_assigned(st.body), self.t19_def_assigned(st.orelse)
+                both = b if ta else (a if tb else [v for v in a if v in b])
+                out += [v for v in both if v not in out]
+                term = term or (ta and tb)
+            elif isinstance(st, ast.Try) and len(st.handlers) == 1 and not st.orelse and not st.finalbody:
+                (a, _), (b, tb) = self.t19_def_assigned(st.body), self.t19_def_assigned(st.handlers[0].body)
+                out += [v for v in (a if tb else [v for v in a if v in b]) if v not in out]
+        return out, term
+
+    def t19_stmt(self, st, ind, stmts):
+        """(lines, terminates) or None.
+        * `me.a[k] = e` / `me.a[k].append(e)` as whole statements (see `t19_analyse`), in CPython's evaluation order;
+        * an `if` / `try` statement that assigns, on every path that goes on, a variable which is not bound yet: the variable is
+          declared before the statement (Lean scoping; the value `None` is never read);
+        * `try: <body> except <Builtin>[, …]: <handler>` whose handler goes on (see `t19_try`)."""
+        if not getattr(self.u, "t19", False):
+            return None
+        P = " " * ind
+        node = st.value if isinstance(st, ast.Expr) else (st.targets[0] if isinstance(st, ast.Assign) and len(st.targets) == 1 else None)
+        what = self.t19_item_store(node) if node is not None else None
+        if what is not None:
+            kind, attr, key = what
+            me = lname(self.params[0])
+            if self.params[0] not in self.declared or self.in_loop is not None and self.params[0] not in self.in_loop:
+                raise self.bad(f"{self.params[0]} is not bound here")
+            d, r1, r2 = self.fresh(), self.fresh(), self.fresh()
+            if kind == "set":
+                pv, v = self.expr(st.value, ind)          # CPython: the value first, then the container and the key
+                pk, k = self.expr(key, ind)
+                return (pv + [f"{P}let {d} ← PyU.getAttr {me} {lean_string(attr)}"] + pk
+                        + [f"{P}let {r1} ← PyU.setItem {d} {k} {v}", f"{P}let {r2} ← PyU.setAttr {me} {lean_string(attr)} {r1}", f"{P}{me} := {r2}"]), False
+            if len(node.args) != 1 or node.keywords:
+                raise self.bad("append with other than one argument")
+            pk, k = self.expr(key, ind)
+            old, new = self.fresh(), self.fresh()
+            pv, v = self.expr(node.args[0], ind)          # the receiver `me.a[k]` is evaluated before the argument
+            return ([f"{P}let {d} ← PyU.getAttr {me} {lean_string(attr)}"] + pk + [f"{P}let {old} ← PyU.getItem {d} {k}"] + pv
+                    + [f"{P}let {new} ← PyU.append {old} {v}", f"{P}let {r1} ← PyU.setItem {d} {k} {new}",
+                       f"{P}let {r2} ← PyU.setAttr {me} {lean_string(attr)} {r1}", f"{P}{me} := {r2}"]), False
+        if not isinstance(st, (ast.If, ast.Try)):
+            return None
+        if id(st) in self.t19_seen:            # second visit (after the hoisting below)
+            return (self.t19_try(st, ind), False) if isinstance(st, ast.Try) else None
+        self.t19_seen.add(id(st))
+        new = [v for v in self.t19_def_assigned([st])[0] if v not in self.declared and v not in self.mutable]
+        lines = [self.bind(v, "V.none", ind) for v in new]
+        body, term = self.block([st], ind)
+        return lines + body, term
+
+    def t19_try(self, st: ast.Try, ind) -> list:
+        """`try: <body> except <Builtin>[, …]: <handler>` translated with Lean's `try … catch`: when the body raises, everything it
+        assigned before is discarded, whereas in Python it persists.  EXACT under the conditions checked here: body and handler
+        contain no loop / comprehension / return / raise / break / continue / yield / nested try / assert; the body changes no
+        mutable object (list, BytesIO, the threaded first parameter, a call counter); the handler does not read a variable the body
+        assigns; every variable the body assigns that exists before the statement is assigned by the handler on every path (so the
+        value discarded with a failed body is never seen), and a variable the body assigns FIRST is not visible afterwards (a use
+        is rejected as "may be used before it is assigned").  Any other exception propagates."""
+        P = " " * ind
+        excs = self.t02_try_excs(st)
+        if self.asserts or self.stops or self.is_gen:
+            raise self.bad("try in a function with assert / StopIteration / yield")
+        h = st.handlers[0]
+        for part in (st.body, h.body):
+            for b in part:
+                for n in ast.walk(b):
+                    if isinstance(n, (ast.While, ast.For, ast.DictComp, ast.ListComp, ast.Raise, ast.Return, ast.Break, ast.Continue,
+                                      ast.Yield, ast.Try, ast.Assert)):
+                        raise self.bad(f"{type(n).__name__} inside a try statement")
+        if any(isinstance(n, ast.Name) and n.id == "exc0" for n in ast.walk(self.fd)):
+            raise self.bad("variable name exc0 clashes with the translator's own names")
+        stored = self.stores_in(st.body)
+        dirty = {v for v in stored if v in self.mutable or v in self.files or v in (CALLS, YIELDS) or v in self.objvars}
+        if self.t19_item_store_in(st.body) or dirty:
+            raise self.bad(f"the body of a try statement changes a mutable object {sorted(dirty)}")
+        if stored & {n.id for b in h.body for n in ast.walk(b) if isinstance(n, ast.Name) and isinstance(n.ctx, ast.Load)}:
+            raise self.bad("the exception handler reads a variable that the try body assigns")
+        before = [v for v in stored if v in self.declared]
+        missing = [v for v in before if v not in self.t19_def_assigned(h.body)[0]]
+        if missing:
+            raise self.bad(f"the try body assigns {missing}, which the exception handler does not assign on every path")
+        saved = list(self.declared)
+        body, _ = self.block(st.body, ind + 2)
+        self.declared = list(saved)
+        handler, _ = self.block(h.body, ind + 4)
+        self.declared = list(saved)
+        test = " || ".join(f"exc0 = {e}" for e in excs)
+        return ([f"{P}try"] + (body or [f"{P}  pure ()"]) + [f"{P}catch exc0 =>", f"{P}  if {test} then"]
+                + (handler or [f"{P}    pure ()"]) + [f"{P}  else", f"{P}    throw exc0"])
+
+    def t19_item_store_in(self, stmts) -> bool:
+        return any(self.t19_item_store(n) is not None for b in stmts for n in ast.walk(b))
 
     def run(self):
         self.analyse()
@@ -1141,15 +2862,21 @@ class _Fn:
         if self.uses_calls:
             head.append("  let mut t0 := (V.int 0)")
             self.declared.append(CALLS)
+        if self.is_gen:
+            head.append("  let mut ys0 := (V.list [])")
+            self.declared.append(YIELDS)
         body, term = self.block(self.fd.body, 2)
         if self.init is not None:
             cls_term, attrs = self.init
             if term:
                 raise self.bad("`__init__` always raises")
-            missing = [a for a in attrs if f"self__{a}" not in self.declared]
+            missing = [a for a in attrs if f"self__{a}" not in self.declared and a not in self.t15_init_files]
             if missing:
                 raise self.bad(f"attributes {missing} are not assigned on every path (at the top level of `__init__`)")
-            body.append(f"  return (V.inst {cls_term} [{', '.join(lname('self__' + a) for a in attrs)}])")
+            body.append(f"  return (V.inst {cls_term} [{', '.join(lname(self.t15_init_files.get(a, 'self__' + a)) for a in attrs)}])")
+        elif self.is_gen:
+            if not term:
+                body.append(f"  return {self.result_term()}")
         elif not term:
             raise self.bad("a path reaches the end of the function without return")
         return head + body
